@@ -1,559 +1,128 @@
 /-
-  C25 — property theorems, part 2: the TRACED code (definitions of `Gen.lean`, regenerated on every run
+  C25 — property theorems, part 4 (two-phase schemes, Mori–Tanaka = Hashin–Shtrikman): the TRACED code (definitions of `Gen.lean`, regenerated on every run
   from /repo by harness/C25/trace_{a,b}.cxx + checks/C25.py) against the reference definitions of Spec.lean.
 
   `K` is any linearly ordered field. `Gen.<unit>_all` is the list of all outputs of a traced unit,
   `Gen.<unit>_path` the branch outcomes under which that trace was taken (concolic mode).
   General-n theorems (any number of phases) are in PropsGen.lean.
 -/
-import TfelVerif.C25.Gen
-import TfelVerif.C25.PropsGen
+import TfelVerif.C25.PropsHS
 
 namespace TfelVerif.C25.Props
 open Finset TfelVerif TfelVerif.C25 TfelVerif.C25.Spec TfelVerif.C25.Lemmas
 set_option linter.unusedVariables false
+set_option linter.unusedSectionVars false
 set_option linter.unusedSimpArgs false
 set_option linter.unusedTactic false
 set_option linter.unreachableTactic false
 
 variable {K : Type} [Field K] [LinearOrder K] [IsStrictOrderedRing K] (c c3 : K) (fn : Fns K)
 
-/-- unfold a traced Hashin–Shtrikman unit, recognise the reference moduli as the code writes them, compare -/
-macro "hs_formula" d:term "," l:term : tactic => `(tactic| (
-  simp only [$d:term, $l:term, codeH3, codeH2, codeKs3, codeKs2, List.cons.injEq, and_true]
-  refine ⟨?_, ?_, ?_, ?_⟩ <;> ring))
-/-- from the recorded outcomes of `std::min_element` / `std::max_element` to "is the minimum / maximum" -/
-macro "hs_selected" p:term "," h:ident : tactic => `(tactic| (
-  simp only [$p:term, codeH3, codeH2, not_lt] at $h:ident
-  casesm* _ ∧ _
-  repeat' apply And.intro
-  all_goals first | exact le_rfl | assumption | linarith))
-macro "hs_pick" h:ident : tactic => `(tactic| (
-  have hh := $h
-  casesm* _ ∧ _
-  first | assumption | exact le_rfl))
+/-! ## two-phase schemes for spherical inclusions -/
 
-/-! ## Hashin–Shtrikman bounds (`computeIsotropicHashinShtrikmanBounds<d>`), 2..5 phases -/
+/-- positivity of the two-phase Mori–Tanaka moduli -/
+theorem mt_moduli_pos {K0 G0 K1 G1 f : K} (hK0 : 0 < K0) (hG0 : 0 < G0) (hK1 : 0 < K1) (hG1 : 0 < G1)
+    (hf0 : 0 ≤ f) (hf1 : f ≤ 1) :
+    0 < hs ![1 - f, f] ![K0, K1] (Ks3 G0) ∧ 0 < hs ![1 - f, f] ![G0, G1] (H3 K0 G0) := by
+  have hF := all_fin2 (P := fun x : K => 0 ≤ x) (f0 := 1 - f) (f1 := f) (by linarith) hf0
+  have hS : ∑ i, ![1 - f, f] i = 1 := by rw [sum_fin2]; ring
+  exact ⟨hs_pos _ _ hF hS (all_fin2 (P := fun x : K => 0 < x) hK0 hK1) (Ks3_nonneg hG0),
+         hs_pos _ _ hF hS (all_fin2 (P := fun x : K => 0 < x) hG0 hG1) (H3_pos hK0 hG0).le⟩
 
-/-- `HS3_n2_p0` (dimension 3, 2 phases; trace in which phase 0 has the smallest and phase 1 the largest shear
-modulus, phase 0 the smallest and phase 1 the largest `H`): the four returned moduli are the
-Hashin–Shtrikman forms with these reference moduli. -/
-theorem HS3_n2_p0_formula (f0 f1 K0 K1 mu0 mu1 : K) :
-    Gen.HS3_n2_p0_all c c3 fn f0 f1 K0 K1 mu0 mu1 =
-      [hs ![f0, f1] ![K0, K1] (Ks3 mu0), hs ![f0, f1] ![mu0, mu1] (H3 K0 mu0),
-       hs ![f0, f1] ![K0, K1] (Ks3 mu1), hs ![f0, f1] ![mu0, mu1] (H3 K1 mu1)] := by
-  hs_formula Gen.HS3_n2_p0_all, hs_fin2
-/-- on that path the selected phases are indeed the extreme ones -/
-theorem HS3_n2_p0_selected (f0 f1 K0 K1 mu0 mu1 : K) (h : Gen.HS3_n2_p0_path c c3 fn f0 f1 K0 K1 mu0 mu1) :
-    (mu0 ≤ mu0 ∧ mu0 ≤ mu1) ∧ (mu0 ≤ mu1 ∧ mu1 ≤ mu1) ∧
-    (H3 K0 mu0 ≤ H3 K0 mu0 ∧ H3 K0 mu0 ≤ H3 K1 mu1) ∧ (H3 K0 mu0 ≤ H3 K1 mu1 ∧ H3 K1 mu1 ≤ H3 K1 mu1) := by
-  hs_selected Gen.HS3_n2_p0_path, h
-/-- Reuss ≤ HS⁻ ≤ HS⁺ ≤ Voigt for the bulk and the shear modulus returned on that path -/
-theorem HS3_n2_p0_ordered (f0 f1 K0 K1 mu0 mu1 : K) (h : Gen.HS3_n2_p0_path c c3 fn f0 f1 K0 K1 mu0 mu1)
-    (hf0 : 0 ≤ f0) (hf1 : 0 ≤ f1) (h1 : f0 + f1 = 1)
-    (hK0 : 0 < K0) (hK1 : 0 < K1) (hmu0 : 0 < mu0) (hmu1 : 0 < mu1) :
-    ∃ KL GL KU GU, Gen.HS3_n2_p0_all c c3 fn f0 f1 K0 K1 mu0 mu1 = [KL, GL, KU, GU] ∧
-      reuss ![f0, f1] ![K0, K1] ≤ KL ∧ KL ≤ KU ∧ KU ≤ voigt ![f0, f1] ![K0, K1] ∧
-      reuss ![f0, f1] ![mu0, mu1] ≤ GL ∧ GL ≤ GU ∧ GU ≤ voigt ![f0, f1] ![mu0, mu1] := by
-  obtain ⟨ha, hc, hb, hd⟩ := HS3_n2_p0_selected c c3 fn f0 f1 K0 K1 mu0 mu1 h
-  have hF := all_fin2 (P := fun x : K => 0 ≤ x) hf0 hf1
-  have hS : ∑ i, ![f0, f1] i = 1 := by rw [sum_fin2]; exact h1
-  have hKp := all_fin2 (P := fun x : K => 0 < x) hK0 hK1
-  have hMp := all_fin2 (P := fun x : K => 0 < x) hmu0 hmu1
-  obtain ⟨k1, k2, k3⟩ := bounds_chain ![f0, f1] ![K0, K1] hF hS hKp (s := Ks3 mu0) (t := Ks3 mu1) (Ks3_nonneg hmu0) (Ks3_mono (by hs_pick ha))
-  obtain ⟨g1, g2, g3⟩ := bounds_chain ![f0, f1] ![mu0, mu1] hF hS hMp (s := H3 K0 mu0) (t := H3 K1 mu1) (H3_pos hK0 hmu0).le (by hs_pick hb)
-  exact ⟨_, _, _, _, HS3_n2_p0_formula c c3 fn f0 f1 K0 K1 mu0 mu1, k1, k2, k3, g1, g2, g3⟩
+/-- `computeSphereMoriTanakaScheme(KGModuli, f, KGModuli)`: the Hashin–Shtrikman forms whose reference moduli
+are those of the matrix -/
+theorem SphMT_KG (K0 G0 f K1 G1 : K) (hK0 : 0 < K0) (hG0 : 0 < G0) (hK1 : 0 < K1) (hG1 : 0 < G1)
+    (hf0 : 0 ≤ f) (hf1 : f ≤ 1) :
+    Gen.SphMT_KG_all c c3 fn K0 G0 f K1 G1 =
+      [hs ![1 - f, f] ![K0, K1] (Ks3 G0), hs ![1 - f, f] ![G0, G1] (H3 K0 G0)] := by
+  obtain ⟨hKm, hGm⟩ := mt_moduli_pos hK0 hG0 hK1 hG1 hf0 hf1
+  simp only [Gen.SphMT_KG_all, rtK1 hK0 hG0, rtG1 hK0 hG0, rtK1 hK1 hG1, rtG1 hK1 hG1,
+    mtK hK0 hG0 hK1 hf0 hf1, mtG hK0 hG0 hG1 hf0 hf1, rtK2 hKm hGm, rtG2 hKm hGm]
 
-/-- `HS3_n2_p1` (dimension 3, 2 phases; trace in which phase 1 has the smallest and phase 0 the largest shear
-modulus, phase 1 the smallest and phase 0 the largest `H`): the four returned moduli are the
-Hashin–Shtrikman forms with these reference moduli. -/
-theorem HS3_n2_p1_formula (f0 f1 K0 K1 mu0 mu1 : K) :
-    Gen.HS3_n2_p1_all c c3 fn f0 f1 K0 K1 mu0 mu1 =
-      [hs ![f0, f1] ![K0, K1] (Ks3 mu1), hs ![f0, f1] ![mu0, mu1] (H3 K1 mu1),
-       hs ![f0, f1] ![K0, K1] (Ks3 mu0), hs ![f0, f1] ![mu0, mu1] (H3 K0 mu0)] := by
-  hs_formula Gen.HS3_n2_p1_all, hs_fin2
-/-- on that path the selected phases are indeed the extreme ones -/
-theorem HS3_n2_p1_selected (f0 f1 K0 K1 mu0 mu1 : K) (h : Gen.HS3_n2_p1_path c c3 fn f0 f1 K0 K1 mu0 mu1) :
-    (mu1 ≤ mu0 ∧ mu1 ≤ mu1) ∧ (mu0 ≤ mu0 ∧ mu1 ≤ mu0) ∧
-    (H3 K1 mu1 ≤ H3 K0 mu0 ∧ H3 K1 mu1 ≤ H3 K1 mu1) ∧ (H3 K0 mu0 ≤ H3 K0 mu0 ∧ H3 K1 mu1 ≤ H3 K0 mu0) := by
-  hs_selected Gen.HS3_n2_p1_path, h
-/-- Reuss ≤ HS⁻ ≤ HS⁺ ≤ Voigt for the bulk and the shear modulus returned on that path -/
-theorem HS3_n2_p1_ordered (f0 f1 K0 K1 mu0 mu1 : K) (h : Gen.HS3_n2_p1_path c c3 fn f0 f1 K0 K1 mu0 mu1)
-    (hf0 : 0 ≤ f0) (hf1 : 0 ≤ f1) (h1 : f0 + f1 = 1)
-    (hK0 : 0 < K0) (hK1 : 0 < K1) (hmu0 : 0 < mu0) (hmu1 : 0 < mu1) :
-    ∃ KL GL KU GU, Gen.HS3_n2_p1_all c c3 fn f0 f1 K0 K1 mu0 mu1 = [KL, GL, KU, GU] ∧
-      reuss ![f0, f1] ![K0, K1] ≤ KL ∧ KL ≤ KU ∧ KU ≤ voigt ![f0, f1] ![K0, K1] ∧
-      reuss ![f0, f1] ![mu0, mu1] ≤ GL ∧ GL ≤ GU ∧ GU ≤ voigt ![f0, f1] ![mu0, mu1] := by
-  obtain ⟨ha, hc, hb, hd⟩ := HS3_n2_p1_selected c c3 fn f0 f1 K0 K1 mu0 mu1 h
-  have hF := all_fin2 (P := fun x : K => 0 ≤ x) hf0 hf1
-  have hS : ∑ i, ![f0, f1] i = 1 := by rw [sum_fin2]; exact h1
-  have hKp := all_fin2 (P := fun x : K => 0 < x) hK0 hK1
-  have hMp := all_fin2 (P := fun x : K => 0 < x) hmu0 hmu1
-  obtain ⟨k1, k2, k3⟩ := bounds_chain ![f0, f1] ![K0, K1] hF hS hKp (s := Ks3 mu1) (t := Ks3 mu0) (Ks3_nonneg hmu1) (Ks3_mono (by hs_pick ha))
-  obtain ⟨g1, g2, g3⟩ := bounds_chain ![f0, f1] ![mu0, mu1] hF hS hMp (s := H3 K1 mu1) (t := H3 K0 mu0) (H3_pos hK1 hmu1).le (by hs_pick hb)
-  exact ⟨_, _, _, _, HS3_n2_p1_formula c c3 fn f0 f1 K0 K1 mu0 mu1, k1, k2, k3, g1, g2, g3⟩
+/-- `computeSphereMoriTanakaScheme(E0, ν0, f, Ei, νi)`: returned (E, ν) and their conversion back to (K, G) -/
+theorem SphMT_EN (E0 nu0 f Ei nui : K) (hK0 : 0 < kOf E0 nu0) (hG0 : 0 < gOf E0 nu0)
+    (hK1 : 0 < kOf Ei nui) (hG1 : 0 < gOf Ei nui) (hf0 : 0 ≤ f) (hf1 : f ≤ 1) :
+    let Km := hs ![1 - f, f] ![kOf E0 nu0, kOf Ei nui] (Ks3 (gOf E0 nu0))
+    let Gm := hs ![1 - f, f] ![gOf E0 nu0, gOf Ei nui] (H3 (kOf E0 nu0) (gOf E0 nu0))
+    Gen.SphMT_EN_all c c3 fn E0 nu0 f Ei nui = [youngOf Km Gm, nuOf Km Gm, Km, Gm] := by
+  intro Km Gm
+  obtain ⟨hKm, hGm⟩ := mt_moduli_pos hK0 hG0 hK1 hG1 hf0 hf1
+  simp only [Gen.SphMT_EN_all, codeKof, codeGof,
+    mtK hK0 hG0 hK1 hf0 hf1, mtG hK0 hG0 hG1 hf0 hf1, rtK2 hKm hGm, rtG2 hKm hGm]
+  simp only [rtE hKm hGm]
+  simp only [rtNu hKm hGm, Km, Gm]
 
-/-- `HS3_n2_p2` (dimension 3, 2 phases; trace in which phase 0 has the smallest and phase 1 the largest shear
-modulus, phase 1 the smallest and phase 0 the largest `H`): the four returned moduli are the
-Hashin–Shtrikman forms with these reference moduli. -/
-theorem HS3_n2_p2_formula (f0 f1 K0 K1 mu0 mu1 : K) :
-    Gen.HS3_n2_p2_all c c3 fn f0 f1 K0 K1 mu0 mu1 =
-      [hs ![f0, f1] ![K0, K1] (Ks3 mu0), hs ![f0, f1] ![mu0, mu1] (H3 K1 mu1),
-       hs ![f0, f1] ![K0, K1] (Ks3 mu1), hs ![f0, f1] ![mu0, mu1] (H3 K0 mu0)] := by
-  hs_formula Gen.HS3_n2_p2_all, hs_fin2
-/-- on that path the selected phases are indeed the extreme ones -/
-theorem HS3_n2_p2_selected (f0 f1 K0 K1 mu0 mu1 : K) (h : Gen.HS3_n2_p2_path c c3 fn f0 f1 K0 K1 mu0 mu1) :
-    (mu0 ≤ mu0 ∧ mu0 ≤ mu1) ∧ (mu0 ≤ mu1 ∧ mu1 ≤ mu1) ∧
-    (H3 K1 mu1 ≤ H3 K0 mu0 ∧ H3 K1 mu1 ≤ H3 K1 mu1) ∧ (H3 K0 mu0 ≤ H3 K0 mu0 ∧ H3 K1 mu1 ≤ H3 K0 mu0) := by
-  hs_selected Gen.HS3_n2_p2_path, h
-/-- Reuss ≤ HS⁻ ≤ HS⁺ ≤ Voigt for the bulk and the shear modulus returned on that path -/
-theorem HS3_n2_p2_ordered (f0 f1 K0 K1 mu0 mu1 : K) (h : Gen.HS3_n2_p2_path c c3 fn f0 f1 K0 K1 mu0 mu1)
-    (hf0 : 0 ≤ f0) (hf1 : 0 ≤ f1) (h1 : f0 + f1 = 1)
-    (hK0 : 0 < K0) (hK1 : 0 < K1) (hmu0 : 0 < mu0) (hmu1 : 0 < mu1) :
-    ∃ KL GL KU GU, Gen.HS3_n2_p2_all c c3 fn f0 f1 K0 K1 mu0 mu1 = [KL, GL, KU, GU] ∧
-      reuss ![f0, f1] ![K0, K1] ≤ KL ∧ KL ≤ KU ∧ KU ≤ voigt ![f0, f1] ![K0, K1] ∧
-      reuss ![f0, f1] ![mu0, mu1] ≤ GL ∧ GL ≤ GU ∧ GU ≤ voigt ![f0, f1] ![mu0, mu1] := by
-  obtain ⟨ha, hc, hb, hd⟩ := HS3_n2_p2_selected c c3 fn f0 f1 K0 K1 mu0 mu1 h
-  have hF := all_fin2 (P := fun x : K => 0 ≤ x) hf0 hf1
-  have hS : ∑ i, ![f0, f1] i = 1 := by rw [sum_fin2]; exact h1
-  have hKp := all_fin2 (P := fun x : K => 0 < x) hK0 hK1
-  have hMp := all_fin2 (P := fun x : K => 0 < x) hmu0 hmu1
-  obtain ⟨k1, k2, k3⟩ := bounds_chain ![f0, f1] ![K0, K1] hF hS hKp (s := Ks3 mu0) (t := Ks3 mu1) (Ks3_nonneg hmu0) (Ks3_mono (by hs_pick ha))
-  obtain ⟨g1, g2, g3⟩ := bounds_chain ![f0, f1] ![mu0, mu1] hF hS hMp (s := H3 K1 mu1) (t := H3 K0 mu0) (H3_pos hK1 hmu1).le (by hs_pick hb)
-  exact ⟨_, _, _, _, HS3_n2_p2_formula c c3 fn f0 f1 K0 K1 mu0 mu1, k1, k2, k3, g1, g2, g3⟩
+/-- `computeSphereDiluteScheme(KGModuli, f, KGModuli)`; the conversion (K,G) → (E,ν) → (K,G) of the result
+needs positive dilute moduli (not implied by the inputs: the dilute estimate can leave the bounds) -/
+theorem SphDilute_KG (K0 G0 f K1 G1 : K) (hK0 : 0 < K0) (hG0 : 0 < G0) (hK1 : 0 < K1) (hG1 : 0 < G1)
+    (hKd : 0 < K0 + f * (K1 - K0) * sphAk K0 G0 K1) (hGd : 0 < G0 + f * (G1 - G0) * sphAg K0 G0 G1) :
+    Gen.SphDilute_KG_all c c3 fn K0 G0 f K1 G1 =
+      [K0 + f * (K1 - K0) * sphAk K0 G0 K1, G0 + f * (G1 - G0) * sphAg K0 G0 G1] := by
+  simp only [Gen.SphDilute_KG_all, rtK1 hK0 hG0, rtG1 hK0 hG0, rtK1 hK1 hG1, rtG1 hK1 hG1,
+    dilK hK0 hG0 hK1, dilG hK0 hG0 hG1, rtK2 hKd hGd, rtG2 hKd hGd]
 
-/-- `HS3_n2_p3` (dimension 3, 2 phases; trace in which phase 0 has the smallest and phase 0 the largest shear
-modulus, phase 0 the smallest and phase 0 the largest `H`): the four returned moduli are the
-Hashin–Shtrikman forms with these reference moduli. -/
-theorem HS3_n2_p3_formula (f0 f1 K0 K1 mu0 mu1 : K) :
-    Gen.HS3_n2_p3_all c c3 fn f0 f1 K0 K1 mu0 mu1 =
-      [hs ![f0, f1] ![K0, K1] (Ks3 mu0), hs ![f0, f1] ![mu0, mu1] (H3 K0 mu0),
-       hs ![f0, f1] ![K0, K1] (Ks3 mu0), hs ![f0, f1] ![mu0, mu1] (H3 K0 mu0)] := by
-  hs_formula Gen.HS3_n2_p3_all, hs_fin2
-/-- on that path the selected phases are indeed the extreme ones -/
-theorem HS3_n2_p3_selected (f0 f1 K0 K1 mu0 mu1 : K) (h : Gen.HS3_n2_p3_path c c3 fn f0 f1 K0 K1 mu0 mu1) :
-    (mu0 ≤ mu0 ∧ mu0 ≤ mu1) ∧ (mu0 ≤ mu0 ∧ mu1 ≤ mu0) ∧
-    (H3 K0 mu0 ≤ H3 K0 mu0 ∧ H3 K0 mu0 ≤ H3 K1 mu1) ∧ (H3 K0 mu0 ≤ H3 K0 mu0 ∧ H3 K1 mu1 ≤ H3 K0 mu0) := by
-  hs_selected Gen.HS3_n2_p3_path, h
-/-- Reuss ≤ HS⁻ ≤ HS⁺ ≤ Voigt for the bulk and the shear modulus returned on that path -/
-theorem HS3_n2_p3_ordered (f0 f1 K0 K1 mu0 mu1 : K) (h : Gen.HS3_n2_p3_path c c3 fn f0 f1 K0 K1 mu0 mu1)
-    (hf0 : 0 ≤ f0) (hf1 : 0 ≤ f1) (h1 : f0 + f1 = 1)
-    (hK0 : 0 < K0) (hK1 : 0 < K1) (hmu0 : 0 < mu0) (hmu1 : 0 < mu1) :
-    ∃ KL GL KU GU, Gen.HS3_n2_p3_all c c3 fn f0 f1 K0 K1 mu0 mu1 = [KL, GL, KU, GU] ∧
-      reuss ![f0, f1] ![K0, K1] ≤ KL ∧ KL ≤ KU ∧ KU ≤ voigt ![f0, f1] ![K0, K1] ∧
-      reuss ![f0, f1] ![mu0, mu1] ≤ GL ∧ GL ≤ GU ∧ GU ≤ voigt ![f0, f1] ![mu0, mu1] := by
-  obtain ⟨ha, hc, hb, hd⟩ := HS3_n2_p3_selected c c3 fn f0 f1 K0 K1 mu0 mu1 h
-  have hF := all_fin2 (P := fun x : K => 0 ≤ x) hf0 hf1
-  have hS : ∑ i, ![f0, f1] i = 1 := by rw [sum_fin2]; exact h1
-  have hKp := all_fin2 (P := fun x : K => 0 < x) hK0 hK1
-  have hMp := all_fin2 (P := fun x : K => 0 < x) hmu0 hmu1
-  obtain ⟨k1, k2, k3⟩ := bounds_chain ![f0, f1] ![K0, K1] hF hS hKp (s := Ks3 mu0) (t := Ks3 mu0) (Ks3_nonneg hmu0) (Ks3_mono (by hs_pick ha))
-  obtain ⟨g1, g2, g3⟩ := bounds_chain ![f0, f1] ![mu0, mu1] hF hS hMp (s := H3 K0 mu0) (t := H3 K0 mu0) (H3_pos hK0 hmu0).le (by hs_pick hb)
-  exact ⟨_, _, _, _, HS3_n2_p3_formula c c3 fn f0 f1 K0 K1 mu0 mu1, k1, k2, k3, g1, g2, g3⟩
+theorem SphDilute_EN (E0 nu0 f Ei nui : K) (hK0 : 0 < kOf E0 nu0) (hG0 : 0 < gOf E0 nu0)
+    (hK1 : 0 < kOf Ei nui) (hG1 : 0 < gOf Ei nui) :
+    let Kd := kOf E0 nu0 + f * (kOf Ei nui - kOf E0 nu0) * sphAk (kOf E0 nu0) (gOf E0 nu0) (kOf Ei nui)
+    let Gd := gOf E0 nu0 + f * (gOf Ei nui - gOf E0 nu0) * sphAg (kOf E0 nu0) (gOf E0 nu0) (gOf Ei nui)
+    0 < Kd → 0 < Gd →
+    Gen.SphDilute_EN_all c c3 fn E0 nu0 f Ei nui = [youngOf Kd Gd, nuOf Kd Gd, Kd, Gd] := by
+  intro Kd Gd hKd hGd
+  simp only [Kd, Gd] at hKd hGd ⊢
+  simp only [Gen.SphDilute_EN_all, codeKof, codeGof,
+    dilK hK0 hG0 hK1, dilG hK0 hG0 hG1, rtK2 hKd hGd, rtG2 hKd hGd]
+  simp only [rtE hKd hGd]
+  simp only [rtNu hKd hGd]
 
-/-- `HS3_n3_p0` (dimension 3, 3 phases; trace in which phase 0 has the smallest and phase 2 the largest shear
-modulus, phase 0 the smallest and phase 2 the largest `H`): the four returned moduli are the
-Hashin–Shtrikman forms with these reference moduli. -/
-theorem HS3_n3_p0_formula (f0 f1 f2 K0 K1 K2 mu0 mu1 mu2 : K) :
-    Gen.HS3_n3_p0_all c c3 fn f0 f1 f2 K0 K1 K2 mu0 mu1 mu2 =
-      [hs ![f0, f1, f2] ![K0, K1, K2] (Ks3 mu0), hs ![f0, f1, f2] ![mu0, mu1, mu2] (H3 K0 mu0),
-       hs ![f0, f1, f2] ![K0, K1, K2] (Ks3 mu2), hs ![f0, f1, f2] ![mu0, mu1, mu2] (H3 K2 mu2)] := by
-  hs_formula Gen.HS3_n3_p0_all, hs_fin3
-/-- on that path the selected phases are indeed the extreme ones -/
-theorem HS3_n3_p0_selected (f0 f1 f2 K0 K1 K2 mu0 mu1 mu2 : K) (h : Gen.HS3_n3_p0_path c c3 fn f0 f1 f2 K0 K1 K2 mu0 mu1 mu2) :
-    (mu0 ≤ mu0 ∧ mu0 ≤ mu1 ∧ mu0 ≤ mu2) ∧ (mu0 ≤ mu2 ∧ mu1 ≤ mu2 ∧ mu2 ≤ mu2) ∧
-    (H3 K0 mu0 ≤ H3 K0 mu0 ∧ H3 K0 mu0 ≤ H3 K1 mu1 ∧ H3 K0 mu0 ≤ H3 K2 mu2) ∧ (H3 K0 mu0 ≤ H3 K2 mu2 ∧ H3 K1 mu1 ≤ H3 K2 mu2 ∧ H3 K2 mu2 ≤ H3 K2 mu2) := by
-  hs_selected Gen.HS3_n3_p0_path, h
-/-- Reuss ≤ HS⁻ ≤ HS⁺ ≤ Voigt for the bulk and the shear modulus returned on that path -/
-theorem HS3_n3_p0_ordered (f0 f1 f2 K0 K1 K2 mu0 mu1 mu2 : K) (h : Gen.HS3_n3_p0_path c c3 fn f0 f1 f2 K0 K1 K2 mu0 mu1 mu2)
-    (hf0 : 0 ≤ f0) (hf1 : 0 ≤ f1) (hf2 : 0 ≤ f2) (h1 : f0 + f1 + f2 = 1)
-    (hK0 : 0 < K0) (hK1 : 0 < K1) (hK2 : 0 < K2) (hmu0 : 0 < mu0) (hmu1 : 0 < mu1) (hmu2 : 0 < mu2) :
-    ∃ KL GL KU GU, Gen.HS3_n3_p0_all c c3 fn f0 f1 f2 K0 K1 K2 mu0 mu1 mu2 = [KL, GL, KU, GU] ∧
-      reuss ![f0, f1, f2] ![K0, K1, K2] ≤ KL ∧ KL ≤ KU ∧ KU ≤ voigt ![f0, f1, f2] ![K0, K1, K2] ∧
-      reuss ![f0, f1, f2] ![mu0, mu1, mu2] ≤ GL ∧ GL ≤ GU ∧ GU ≤ voigt ![f0, f1, f2] ![mu0, mu1, mu2] := by
-  obtain ⟨ha, hc, hb, hd⟩ := HS3_n3_p0_selected c c3 fn f0 f1 f2 K0 K1 K2 mu0 mu1 mu2 h
-  have hF := all_fin3 (P := fun x : K => 0 ≤ x) hf0 hf1 hf2
-  have hS : ∑ i, ![f0, f1, f2] i = 1 := by rw [sum_fin3]; exact h1
-  have hKp := all_fin3 (P := fun x : K => 0 < x) hK0 hK1 hK2
-  have hMp := all_fin3 (P := fun x : K => 0 < x) hmu0 hmu1 hmu2
-  obtain ⟨k1, k2, k3⟩ := bounds_chain ![f0, f1, f2] ![K0, K1, K2] hF hS hKp (s := Ks3 mu0) (t := Ks3 mu2) (Ks3_nonneg hmu0) (Ks3_mono (by hs_pick ha))
-  obtain ⟨g1, g2, g3⟩ := bounds_chain ![f0, f1, f2] ![mu0, mu1, mu2] hF hS hMp (s := H3 K0 mu0) (t := H3 K2 mu2) (H3_pos hK0 hmu0).le (by hs_pick hb)
-  exact ⟨_, _, _, _, HS3_n3_p0_formula c c3 fn f0 f1 f2 K0 K1 K2 mu0 mu1 mu2, k1, k2, k3, g1, g2, g3⟩
+/-- zero inclusion fraction: the dilute and Mori–Tanaka estimates return the matrix -/
+theorem SphMT_KG_zero (K0 G0 K1 G1 : K) (hK0 : 0 < K0) (hG0 : 0 < G0) (hK1 : 0 < K1) (hG1 : 0 < G1) :
+    Gen.SphMT_KG_all c c3 fn K0 G0 0 K1 G1 = [K0, G0] := by
+  rw [SphMT_KG c c3 fn K0 G0 0 K1 G1 hK0 hG0 hK1 hG1 le_rfl zero_le_one, hs_fin2, hs_fin2]
+  have a : K0 + Ks3 G0 ≠ 0 := (add_pos_of_pos_of_nonneg hK0 (Ks3_nonneg hG0)).ne'
+  have b : G0 + H3 K0 G0 ≠ 0 := (add_pos hG0 (H3_pos hK0 hG0)).ne'
+  simp [a, b]
+theorem SphDilute_KG_zero (K0 G0 K1 G1 : K) (hK0 : 0 < K0) (hG0 : 0 < G0) (hK1 : 0 < K1) (hG1 : 0 < G1) :
+    Gen.SphDilute_KG_all c c3 fn K0 G0 0 K1 G1 = [K0, G0] := by
+  rw [SphDilute_KG c c3 fn K0 G0 0 K1 G1 hK0 hG0 hK1 hG1 (by simpa using hK0) (by simpa using hG0)]
+  simp
+/-- unit inclusion fraction: Mori–Tanaka returns the inclusion -/
+theorem SphMT_KG_one (K0 G0 K1 G1 : K) (hK0 : 0 < K0) (hG0 : 0 < G0) (hK1 : 0 < K1) (hG1 : 0 < G1) :
+    Gen.SphMT_KG_all c c3 fn K0 G0 1 K1 G1 = [K1, G1] := by
+  rw [SphMT_KG c c3 fn K0 G0 1 K1 G1 hK0 hG0 hK1 hG1 zero_le_one le_rfl, hs_fin2, hs_fin2]
+  have a : K1 + Ks3 G0 ≠ 0 := (add_pos_of_pos_of_nonneg hK1 (Ks3_nonneg hG0)).ne'
+  have b : G1 + H3 K0 G0 ≠ 0 := (add_pos hG1 (H3_pos hK0 hG0)).ne'
+  simp [a, b]
 
-/-- `HS3_n3_p1` (dimension 3, 3 phases; trace in which phase 2 has the smallest and phase 0 the largest shear
-modulus, phase 2 the smallest and phase 0 the largest `H`): the four returned moduli are the
-Hashin–Shtrikman forms with these reference moduli. -/
-theorem HS3_n3_p1_formula (f0 f1 f2 K0 K1 K2 mu0 mu1 mu2 : K) :
-    Gen.HS3_n3_p1_all c c3 fn f0 f1 f2 K0 K1 K2 mu0 mu1 mu2 =
-      [hs ![f0, f1, f2] ![K0, K1, K2] (Ks3 mu2), hs ![f0, f1, f2] ![mu0, mu1, mu2] (H3 K2 mu2),
-       hs ![f0, f1, f2] ![K0, K1, K2] (Ks3 mu0), hs ![f0, f1, f2] ![mu0, mu1, mu2] (H3 K0 mu0)] := by
-  hs_formula Gen.HS3_n3_p1_all, hs_fin3
-/-- on that path the selected phases are indeed the extreme ones -/
-theorem HS3_n3_p1_selected (f0 f1 f2 K0 K1 K2 mu0 mu1 mu2 : K) (h : Gen.HS3_n3_p1_path c c3 fn f0 f1 f2 K0 K1 K2 mu0 mu1 mu2) :
-    (mu2 ≤ mu0 ∧ mu2 ≤ mu1 ∧ mu2 ≤ mu2) ∧ (mu0 ≤ mu0 ∧ mu1 ≤ mu0 ∧ mu2 ≤ mu0) ∧
-    (H3 K2 mu2 ≤ H3 K0 mu0 ∧ H3 K2 mu2 ≤ H3 K1 mu1 ∧ H3 K2 mu2 ≤ H3 K2 mu2) ∧ (H3 K0 mu0 ≤ H3 K0 mu0 ∧ H3 K1 mu1 ≤ H3 K0 mu0 ∧ H3 K2 mu2 ≤ H3 K0 mu0) := by
-  hs_selected Gen.HS3_n3_p1_path, h
-/-- Reuss ≤ HS⁻ ≤ HS⁺ ≤ Voigt for the bulk and the shear modulus returned on that path -/
-theorem HS3_n3_p1_ordered (f0 f1 f2 K0 K1 K2 mu0 mu1 mu2 : K) (h : Gen.HS3_n3_p1_path c c3 fn f0 f1 f2 K0 K1 K2 mu0 mu1 mu2)
-    (hf0 : 0 ≤ f0) (hf1 : 0 ≤ f1) (hf2 : 0 ≤ f2) (h1 : f0 + f1 + f2 = 1)
-    (hK0 : 0 < K0) (hK1 : 0 < K1) (hK2 : 0 < K2) (hmu0 : 0 < mu0) (hmu1 : 0 < mu1) (hmu2 : 0 < mu2) :
-    ∃ KL GL KU GU, Gen.HS3_n3_p1_all c c3 fn f0 f1 f2 K0 K1 K2 mu0 mu1 mu2 = [KL, GL, KU, GU] ∧
-      reuss ![f0, f1, f2] ![K0, K1, K2] ≤ KL ∧ KL ≤ KU ∧ KU ≤ voigt ![f0, f1, f2] ![K0, K1, K2] ∧
-      reuss ![f0, f1, f2] ![mu0, mu1, mu2] ≤ GL ∧ GL ≤ GU ∧ GU ≤ voigt ![f0, f1, f2] ![mu0, mu1, mu2] := by
-  obtain ⟨ha, hc, hb, hd⟩ := HS3_n3_p1_selected c c3 fn f0 f1 f2 K0 K1 K2 mu0 mu1 mu2 h
-  have hF := all_fin3 (P := fun x : K => 0 ≤ x) hf0 hf1 hf2
-  have hS : ∑ i, ![f0, f1, f2] i = 1 := by rw [sum_fin3]; exact h1
-  have hKp := all_fin3 (P := fun x : K => 0 < x) hK0 hK1 hK2
-  have hMp := all_fin3 (P := fun x : K => 0 < x) hmu0 hmu1 hmu2
-  obtain ⟨k1, k2, k3⟩ := bounds_chain ![f0, f1, f2] ![K0, K1, K2] hF hS hKp (s := Ks3 mu2) (t := Ks3 mu0) (Ks3_nonneg hmu2) (Ks3_mono (by hs_pick ha))
-  obtain ⟨g1, g2, g3⟩ := bounds_chain ![f0, f1, f2] ![mu0, mu1, mu2] hF hS hMp (s := H3 K2 mu2) (t := H3 K0 mu0) (H3_pos hK2 hmu2).le (by hs_pick hb)
-  exact ⟨_, _, _, _, HS3_n3_p1_formula c c3 fn f0 f1 f2 K0 K1 K2 mu0 mu1 mu2, k1, k2, k3, g1, g2, g3⟩
+/-! ## Mori–Tanaka = Hashin–Shtrikman -/
 
-/-- `HS3_n3_p2` (dimension 3, 3 phases; trace in which phase 0 has the smallest and phase 2 the largest shear
-modulus, phase 2 the smallest and phase 0 the largest `H`): the four returned moduli are the
-Hashin–Shtrikman forms with these reference moduli. -/
-theorem HS3_n3_p2_formula (f0 f1 f2 K0 K1 K2 mu0 mu1 mu2 : K) :
-    Gen.HS3_n3_p2_all c c3 fn f0 f1 f2 K0 K1 K2 mu0 mu1 mu2 =
-      [hs ![f0, f1, f2] ![K0, K1, K2] (Ks3 mu0), hs ![f0, f1, f2] ![mu0, mu1, mu2] (H3 K2 mu2),
-       hs ![f0, f1, f2] ![K0, K1, K2] (Ks3 mu2), hs ![f0, f1, f2] ![mu0, mu1, mu2] (H3 K0 mu0)] := by
-  hs_formula Gen.HS3_n3_p2_all, hs_fin3
-/-- on that path the selected phases are indeed the extreme ones -/
-theorem HS3_n3_p2_selected (f0 f1 f2 K0 K1 K2 mu0 mu1 mu2 : K) (h : Gen.HS3_n3_p2_path c c3 fn f0 f1 f2 K0 K1 K2 mu0 mu1 mu2) :
-    (mu0 ≤ mu0 ∧ mu0 ≤ mu1 ∧ mu0 ≤ mu2) ∧ (mu0 ≤ mu2 ∧ mu1 ≤ mu2 ∧ mu2 ≤ mu2) ∧
-    (H3 K2 mu2 ≤ H3 K0 mu0 ∧ H3 K2 mu2 ≤ H3 K1 mu1 ∧ H3 K2 mu2 ≤ H3 K2 mu2) ∧ (H3 K0 mu0 ≤ H3 K0 mu0 ∧ H3 K1 mu1 ≤ H3 K0 mu0 ∧ H3 K2 mu2 ≤ H3 K0 mu0) := by
-  hs_selected Gen.HS3_n3_p2_path, h
-/-- Reuss ≤ HS⁻ ≤ HS⁺ ≤ Voigt for the bulk and the shear modulus returned on that path -/
-theorem HS3_n3_p2_ordered (f0 f1 f2 K0 K1 K2 mu0 mu1 mu2 : K) (h : Gen.HS3_n3_p2_path c c3 fn f0 f1 f2 K0 K1 K2 mu0 mu1 mu2)
-    (hf0 : 0 ≤ f0) (hf1 : 0 ≤ f1) (hf2 : 0 ≤ f2) (h1 : f0 + f1 + f2 = 1)
-    (hK0 : 0 < K0) (hK1 : 0 < K1) (hK2 : 0 < K2) (hmu0 : 0 < mu0) (hmu1 : 0 < mu1) (hmu2 : 0 < mu2) :
-    ∃ KL GL KU GU, Gen.HS3_n3_p2_all c c3 fn f0 f1 f2 K0 K1 K2 mu0 mu1 mu2 = [KL, GL, KU, GU] ∧
-      reuss ![f0, f1, f2] ![K0, K1, K2] ≤ KL ∧ KL ≤ KU ∧ KU ≤ voigt ![f0, f1, f2] ![K0, K1, K2] ∧
-      reuss ![f0, f1, f2] ![mu0, mu1, mu2] ≤ GL ∧ GL ≤ GU ∧ GU ≤ voigt ![f0, f1, f2] ![mu0, mu1, mu2] := by
-  obtain ⟨ha, hc, hb, hd⟩ := HS3_n3_p2_selected c c3 fn f0 f1 f2 K0 K1 K2 mu0 mu1 mu2 h
-  have hF := all_fin3 (P := fun x : K => 0 ≤ x) hf0 hf1 hf2
-  have hS : ∑ i, ![f0, f1, f2] i = 1 := by rw [sum_fin3]; exact h1
-  have hKp := all_fin3 (P := fun x : K => 0 < x) hK0 hK1 hK2
-  have hMp := all_fin3 (P := fun x : K => 0 < x) hmu0 hmu1 hmu2
-  obtain ⟨k1, k2, k3⟩ := bounds_chain ![f0, f1, f2] ![K0, K1, K2] hF hS hKp (s := Ks3 mu0) (t := Ks3 mu2) (Ks3_nonneg hmu0) (Ks3_mono (by hs_pick ha))
-  obtain ⟨g1, g2, g3⟩ := bounds_chain ![f0, f1, f2] ![mu0, mu1, mu2] hF hS hMp (s := H3 K2 mu2) (t := H3 K0 mu0) (H3_pos hK2 hmu2).le (by hs_pick hb)
-  exact ⟨_, _, _, _, HS3_n3_p2_formula c c3 fn f0 f1 f2 K0 K1 K2 mu0 mu1 mu2, k1, k2, k3, g1, g2, g3⟩
+/-- two phases, phase 0 the softer one in `μ` and `H` (path of `HS3_n2_p0`, where `HS3_n2_p0_selected` shows that the
+reference moduli are the minimum / maximum): the lower bounds are the Mori–Tanaka estimate with phase 0 as
+matrix, the upper bounds the Mori–Tanaka estimate with phase 1 as matrix -/
+theorem MT_eq_HS_p0 (K0 G0 K1 G1 f : K) (hK0 : 0 < K0) (hG0 : 0 < G0) (hK1 : 0 < K1) (hG1 : 0 < G1)
+    (hf0 : 0 ≤ f) (hf1 : f ≤ 1) :
+    Gen.HS3_n2_p0_all c c3 fn (1 - f) f K0 K1 G0 G1
+      = Gen.SphMT_KG_all c c3 fn K0 G0 f K1 G1 ++ Gen.SphMT_KG_all c c3 fn K1 G1 (1 - f) K0 G0 := by
+  rw [HS3_n2_p0_formula, SphMT_KG c c3 fn K0 G0 f K1 G1 hK0 hG0 hK1 hG1 hf0 hf1,
+    SphMT_KG c c3 fn K1 G1 (1 - f) K0 G0 hK1 hG1 hK0 hG0 (by linarith) (by linarith)]
+  simp only [hs_fin2, List.cons_append, List.nil_append, List.cons.injEq, and_true, sub_sub_cancel, true_and]
+  constructor <;> ring
+/-- same with phase 1 the softer one (path of `HS3_n2_p1`) -/
+theorem MT_eq_HS_p1 (K0 G0 K1 G1 f : K) (hK0 : 0 < K0) (hG0 : 0 < G0) (hK1 : 0 < K1) (hG1 : 0 < G1)
+    (hf0 : 0 ≤ f) (hf1 : f ≤ 1) :
+    Gen.HS3_n2_p1_all c c3 fn (1 - f) f K0 K1 G0 G1
+      = Gen.SphMT_KG_all c c3 fn K1 G1 (1 - f) K0 G0 ++ Gen.SphMT_KG_all c c3 fn K0 G0 f K1 G1 := by
+  rw [HS3_n2_p1_formula, SphMT_KG c c3 fn K0 G0 f K1 G1 hK0 hG0 hK1 hG1 hf0 hf1,
+    SphMT_KG c c3 fn K1 G1 (1 - f) K0 G0 hK1 hG1 hK0 hG0 (by linarith) (by linarith)]
+  simp only [hs_fin2, List.cons_append, List.nil_append, List.cons.injEq, and_true, sub_sub_cancel, true_and]
+  refine ⟨?_, ?_⟩ <;> ring
 
-/-- `HS3_n3_p3` (dimension 3, 3 phases; trace in which phase 1 has the smallest and phase 2 the largest shear
-modulus, phase 1 the smallest and phase 2 the largest `H`): the four returned moduli are the
-Hashin–Shtrikman forms with these reference moduli. -/
-theorem HS3_n3_p3_formula (f0 f1 f2 K0 K1 K2 mu0 mu1 mu2 : K) :
-    Gen.HS3_n3_p3_all c c3 fn f0 f1 f2 K0 K1 K2 mu0 mu1 mu2 =
-      [hs ![f0, f1, f2] ![K0, K1, K2] (Ks3 mu1), hs ![f0, f1, f2] ![mu0, mu1, mu2] (H3 K1 mu1),
-       hs ![f0, f1, f2] ![K0, K1, K2] (Ks3 mu2), hs ![f0, f1, f2] ![mu0, mu1, mu2] (H3 K2 mu2)] := by
-  hs_formula Gen.HS3_n3_p3_all, hs_fin3
-/-- on that path the selected phases are indeed the extreme ones -/
-theorem HS3_n3_p3_selected (f0 f1 f2 K0 K1 K2 mu0 mu1 mu2 : K) (h : Gen.HS3_n3_p3_path c c3 fn f0 f1 f2 K0 K1 K2 mu0 mu1 mu2) :
-    (mu1 ≤ mu0 ∧ mu1 ≤ mu1 ∧ mu1 ≤ mu2) ∧ (mu0 ≤ mu2 ∧ mu1 ≤ mu2 ∧ mu2 ≤ mu2) ∧
-    (H3 K1 mu1 ≤ H3 K0 mu0 ∧ H3 K1 mu1 ≤ H3 K1 mu1 ∧ H3 K1 mu1 ≤ H3 K2 mu2) ∧ (H3 K0 mu0 ≤ H3 K2 mu2 ∧ H3 K1 mu1 ≤ H3 K2 mu2 ∧ H3 K2 mu2 ≤ H3 K2 mu2) := by
-  hs_selected Gen.HS3_n3_p3_path, h
-/-- Reuss ≤ HS⁻ ≤ HS⁺ ≤ Voigt for the bulk and the shear modulus returned on that path -/
-theorem HS3_n3_p3_ordered (f0 f1 f2 K0 K1 K2 mu0 mu1 mu2 : K) (h : Gen.HS3_n3_p3_path c c3 fn f0 f1 f2 K0 K1 K2 mu0 mu1 mu2)
-    (hf0 : 0 ≤ f0) (hf1 : 0 ≤ f1) (hf2 : 0 ≤ f2) (h1 : f0 + f1 + f2 = 1)
-    (hK0 : 0 < K0) (hK1 : 0 < K1) (hK2 : 0 < K2) (hmu0 : 0 < mu0) (hmu1 : 0 < mu1) (hmu2 : 0 < mu2) :
-    ∃ KL GL KU GU, Gen.HS3_n3_p3_all c c3 fn f0 f1 f2 K0 K1 K2 mu0 mu1 mu2 = [KL, GL, KU, GU] ∧
-      reuss ![f0, f1, f2] ![K0, K1, K2] ≤ KL ∧ KL ≤ KU ∧ KU ≤ voigt ![f0, f1, f2] ![K0, K1, K2] ∧
-      reuss ![f0, f1, f2] ![mu0, mu1, mu2] ≤ GL ∧ GL ≤ GU ∧ GU ≤ voigt ![f0, f1, f2] ![mu0, mu1, mu2] := by
-  obtain ⟨ha, hc, hb, hd⟩ := HS3_n3_p3_selected c c3 fn f0 f1 f2 K0 K1 K2 mu0 mu1 mu2 h
-  have hF := all_fin3 (P := fun x : K => 0 ≤ x) hf0 hf1 hf2
-  have hS : ∑ i, ![f0, f1, f2] i = 1 := by rw [sum_fin3]; exact h1
-  have hKp := all_fin3 (P := fun x : K => 0 < x) hK0 hK1 hK2
-  have hMp := all_fin3 (P := fun x : K => 0 < x) hmu0 hmu1 hmu2
-  obtain ⟨k1, k2, k3⟩ := bounds_chain ![f0, f1, f2] ![K0, K1, K2] hF hS hKp (s := Ks3 mu1) (t := Ks3 mu2) (Ks3_nonneg hmu1) (Ks3_mono (by hs_pick ha))
-  obtain ⟨g1, g2, g3⟩ := bounds_chain ![f0, f1, f2] ![mu0, mu1, mu2] hF hS hMp (s := H3 K1 mu1) (t := H3 K2 mu2) (H3_pos hK1 hmu1).le (by hs_pick hb)
-  exact ⟨_, _, _, _, HS3_n3_p3_formula c c3 fn f0 f1 f2 K0 K1 K2 mu0 mu1 mu2, k1, k2, k3, g1, g2, g3⟩
-
-/-- `HS3_n4_p0` (dimension 3, 4 phases; trace in which phase 0 has the smallest and phase 3 the largest shear
-modulus, phase 0 the smallest and phase 3 the largest `H`): the four returned moduli are the
-Hashin–Shtrikman forms with these reference moduli. -/
-theorem HS3_n4_p0_formula (f0 f1 f2 f3 K0 K1 K2 K3 mu0 mu1 mu2 mu3 : K) :
-    Gen.HS3_n4_p0_all c c3 fn f0 f1 f2 f3 K0 K1 K2 K3 mu0 mu1 mu2 mu3 =
-      [hs ![f0, f1, f2, f3] ![K0, K1, K2, K3] (Ks3 mu0), hs ![f0, f1, f2, f3] ![mu0, mu1, mu2, mu3] (H3 K0 mu0),
-       hs ![f0, f1, f2, f3] ![K0, K1, K2, K3] (Ks3 mu3), hs ![f0, f1, f2, f3] ![mu0, mu1, mu2, mu3] (H3 K3 mu3)] := by
-  hs_formula Gen.HS3_n4_p0_all, hs_fin4
-/-- on that path the selected phases are indeed the extreme ones -/
-theorem HS3_n4_p0_selected (f0 f1 f2 f3 K0 K1 K2 K3 mu0 mu1 mu2 mu3 : K) (h : Gen.HS3_n4_p0_path c c3 fn f0 f1 f2 f3 K0 K1 K2 K3 mu0 mu1 mu2 mu3) :
-    (mu0 ≤ mu0 ∧ mu0 ≤ mu1 ∧ mu0 ≤ mu2 ∧ mu0 ≤ mu3) ∧ (mu0 ≤ mu3 ∧ mu1 ≤ mu3 ∧ mu2 ≤ mu3 ∧ mu3 ≤ mu3) ∧
-    (H3 K0 mu0 ≤ H3 K0 mu0 ∧ H3 K0 mu0 ≤ H3 K1 mu1 ∧ H3 K0 mu0 ≤ H3 K2 mu2 ∧ H3 K0 mu0 ≤ H3 K3 mu3) ∧ (H3 K0 mu0 ≤ H3 K3 mu3 ∧ H3 K1 mu1 ≤ H3 K3 mu3 ∧ H3 K2 mu2 ≤ H3 K3 mu3 ∧ H3 K3 mu3 ≤ H3 K3 mu3) := by
-  hs_selected Gen.HS3_n4_p0_path, h
-/-- Reuss ≤ HS⁻ ≤ HS⁺ ≤ Voigt for the bulk and the shear modulus returned on that path -/
-theorem HS3_n4_p0_ordered (f0 f1 f2 f3 K0 K1 K2 K3 mu0 mu1 mu2 mu3 : K) (h : Gen.HS3_n4_p0_path c c3 fn f0 f1 f2 f3 K0 K1 K2 K3 mu0 mu1 mu2 mu3)
-    (hf0 : 0 ≤ f0) (hf1 : 0 ≤ f1) (hf2 : 0 ≤ f2) (hf3 : 0 ≤ f3) (h1 : f0 + f1 + f2 + f3 = 1)
-    (hK0 : 0 < K0) (hK1 : 0 < K1) (hK2 : 0 < K2) (hK3 : 0 < K3) (hmu0 : 0 < mu0) (hmu1 : 0 < mu1) (hmu2 : 0 < mu2) (hmu3 : 0 < mu3) :
-    ∃ KL GL KU GU, Gen.HS3_n4_p0_all c c3 fn f0 f1 f2 f3 K0 K1 K2 K3 mu0 mu1 mu2 mu3 = [KL, GL, KU, GU] ∧
-      reuss ![f0, f1, f2, f3] ![K0, K1, K2, K3] ≤ KL ∧ KL ≤ KU ∧ KU ≤ voigt ![f0, f1, f2, f3] ![K0, K1, K2, K3] ∧
-      reuss ![f0, f1, f2, f3] ![mu0, mu1, mu2, mu3] ≤ GL ∧ GL ≤ GU ∧ GU ≤ voigt ![f0, f1, f2, f3] ![mu0, mu1, mu2, mu3] := by
-  obtain ⟨ha, hc, hb, hd⟩ := HS3_n4_p0_selected c c3 fn f0 f1 f2 f3 K0 K1 K2 K3 mu0 mu1 mu2 mu3 h
-  have hF := all_fin4 (P := fun x : K => 0 ≤ x) hf0 hf1 hf2 hf3
-  have hS : ∑ i, ![f0, f1, f2, f3] i = 1 := by rw [sum_fin4]; exact h1
-  have hKp := all_fin4 (P := fun x : K => 0 < x) hK0 hK1 hK2 hK3
-  have hMp := all_fin4 (P := fun x : K => 0 < x) hmu0 hmu1 hmu2 hmu3
-  obtain ⟨k1, k2, k3⟩ := bounds_chain ![f0, f1, f2, f3] ![K0, K1, K2, K3] hF hS hKp (s := Ks3 mu0) (t := Ks3 mu3) (Ks3_nonneg hmu0) (Ks3_mono (by hs_pick ha))
-  obtain ⟨g1, g2, g3⟩ := bounds_chain ![f0, f1, f2, f3] ![mu0, mu1, mu2, mu3] hF hS hMp (s := H3 K0 mu0) (t := H3 K3 mu3) (H3_pos hK0 hmu0).le (by hs_pick hb)
-  exact ⟨_, _, _, _, HS3_n4_p0_formula c c3 fn f0 f1 f2 f3 K0 K1 K2 K3 mu0 mu1 mu2 mu3, k1, k2, k3, g1, g2, g3⟩
-
-/-- `HS3_n4_p1` (dimension 3, 4 phases; trace in which phase 3 has the smallest and phase 0 the largest shear
-modulus, phase 3 the smallest and phase 0 the largest `H`): the four returned moduli are the
-Hashin–Shtrikman forms with these reference moduli. -/
-theorem HS3_n4_p1_formula (f0 f1 f2 f3 K0 K1 K2 K3 mu0 mu1 mu2 mu3 : K) :
-    Gen.HS3_n4_p1_all c c3 fn f0 f1 f2 f3 K0 K1 K2 K3 mu0 mu1 mu2 mu3 =
-      [hs ![f0, f1, f2, f3] ![K0, K1, K2, K3] (Ks3 mu3), hs ![f0, f1, f2, f3] ![mu0, mu1, mu2, mu3] (H3 K3 mu3),
-       hs ![f0, f1, f2, f3] ![K0, K1, K2, K3] (Ks3 mu0), hs ![f0, f1, f2, f3] ![mu0, mu1, mu2, mu3] (H3 K0 mu0)] := by
-  hs_formula Gen.HS3_n4_p1_all, hs_fin4
-/-- on that path the selected phases are indeed the extreme ones -/
-theorem HS3_n4_p1_selected (f0 f1 f2 f3 K0 K1 K2 K3 mu0 mu1 mu2 mu3 : K) (h : Gen.HS3_n4_p1_path c c3 fn f0 f1 f2 f3 K0 K1 K2 K3 mu0 mu1 mu2 mu3) :
-    (mu3 ≤ mu0 ∧ mu3 ≤ mu1 ∧ mu3 ≤ mu2 ∧ mu3 ≤ mu3) ∧ (mu0 ≤ mu0 ∧ mu1 ≤ mu0 ∧ mu2 ≤ mu0 ∧ mu3 ≤ mu0) ∧
-    (H3 K3 mu3 ≤ H3 K0 mu0 ∧ H3 K3 mu3 ≤ H3 K1 mu1 ∧ H3 K3 mu3 ≤ H3 K2 mu2 ∧ H3 K3 mu3 ≤ H3 K3 mu3) ∧ (H3 K0 mu0 ≤ H3 K0 mu0 ∧ H3 K1 mu1 ≤ H3 K0 mu0 ∧ H3 K2 mu2 ≤ H3 K0 mu0 ∧ H3 K3 mu3 ≤ H3 K0 mu0) := by
-  hs_selected Gen.HS3_n4_p1_path, h
-/-- Reuss ≤ HS⁻ ≤ HS⁺ ≤ Voigt for the bulk and the shear modulus returned on that path -/
-theorem HS3_n4_p1_ordered (f0 f1 f2 f3 K0 K1 K2 K3 mu0 mu1 mu2 mu3 : K) (h : Gen.HS3_n4_p1_path c c3 fn f0 f1 f2 f3 K0 K1 K2 K3 mu0 mu1 mu2 mu3)
-    (hf0 : 0 ≤ f0) (hf1 : 0 ≤ f1) (hf2 : 0 ≤ f2) (hf3 : 0 ≤ f3) (h1 : f0 + f1 + f2 + f3 = 1)
-    (hK0 : 0 < K0) (hK1 : 0 < K1) (hK2 : 0 < K2) (hK3 : 0 < K3) (hmu0 : 0 < mu0) (hmu1 : 0 < mu1) (hmu2 : 0 < mu2) (hmu3 : 0 < mu3) :
-    ∃ KL GL KU GU, Gen.HS3_n4_p1_all c c3 fn f0 f1 f2 f3 K0 K1 K2 K3 mu0 mu1 mu2 mu3 = [KL, GL, KU, GU] ∧
-      reuss ![f0, f1, f2, f3] ![K0, K1, K2, K3] ≤ KL ∧ KL ≤ KU ∧ KU ≤ voigt ![f0, f1, f2, f3] ![K0, K1, K2, K3] ∧
-      reuss ![f0, f1, f2, f3] ![mu0, mu1, mu2, mu3] ≤ GL ∧ GL ≤ GU ∧ GU ≤ voigt ![f0, f1, f2, f3] ![mu0, mu1, mu2, mu3] := by
-  obtain ⟨ha, hc, hb, hd⟩ := HS3_n4_p1_selected c c3 fn f0 f1 f2 f3 K0 K1 K2 K3 mu0 mu1 mu2 mu3 h
-  have hF := all_fin4 (P := fun x : K => 0 ≤ x) hf0 hf1 hf2 hf3
-  have hS : ∑ i, ![f0, f1, f2, f3] i = 1 := by rw [sum_fin4]; exact h1
-  have hKp := all_fin4 (P := fun x : K => 0 < x) hK0 hK1 hK2 hK3
-  have hMp := all_fin4 (P := fun x : K => 0 < x) hmu0 hmu1 hmu2 hmu3
-  obtain ⟨k1, k2, k3⟩ := bounds_chain ![f0, f1, f2, f3] ![K0, K1, K2, K3] hF hS hKp (s := Ks3 mu3) (t := Ks3 mu0) (Ks3_nonneg hmu3) (Ks3_mono (by hs_pick ha))
-  obtain ⟨g1, g2, g3⟩ := bounds_chain ![f0, f1, f2, f3] ![mu0, mu1, mu2, mu3] hF hS hMp (s := H3 K3 mu3) (t := H3 K0 mu0) (H3_pos hK3 hmu3).le (by hs_pick hb)
-  exact ⟨_, _, _, _, HS3_n4_p1_formula c c3 fn f0 f1 f2 f3 K0 K1 K2 K3 mu0 mu1 mu2 mu3, k1, k2, k3, g1, g2, g3⟩
-
-/-- `HS3_n4_p2` (dimension 3, 4 phases; trace in which phase 0 has the smallest and phase 3 the largest shear
-modulus, phase 2 the smallest and phase 1 the largest `H`): the four returned moduli are the
-Hashin–Shtrikman forms with these reference moduli. -/
-theorem HS3_n4_p2_formula (f0 f1 f2 f3 K0 K1 K2 K3 mu0 mu1 mu2 mu3 : K) :
-    Gen.HS3_n4_p2_all c c3 fn f0 f1 f2 f3 K0 K1 K2 K3 mu0 mu1 mu2 mu3 =
-      [hs ![f0, f1, f2, f3] ![K0, K1, K2, K3] (Ks3 mu0), hs ![f0, f1, f2, f3] ![mu0, mu1, mu2, mu3] (H3 K2 mu2),
-       hs ![f0, f1, f2, f3] ![K0, K1, K2, K3] (Ks3 mu3), hs ![f0, f1, f2, f3] ![mu0, mu1, mu2, mu3] (H3 K1 mu1)] := by
-  hs_formula Gen.HS3_n4_p2_all, hs_fin4
-/-- on that path the selected phases are indeed the extreme ones -/
-theorem HS3_n4_p2_selected (f0 f1 f2 f3 K0 K1 K2 K3 mu0 mu1 mu2 mu3 : K) (h : Gen.HS3_n4_p2_path c c3 fn f0 f1 f2 f3 K0 K1 K2 K3 mu0 mu1 mu2 mu3) :
-    (mu0 ≤ mu0 ∧ mu0 ≤ mu1 ∧ mu0 ≤ mu2 ∧ mu0 ≤ mu3) ∧ (mu0 ≤ mu3 ∧ mu1 ≤ mu3 ∧ mu2 ≤ mu3 ∧ mu3 ≤ mu3) ∧
-    (H3 K2 mu2 ≤ H3 K0 mu0 ∧ H3 K2 mu2 ≤ H3 K1 mu1 ∧ H3 K2 mu2 ≤ H3 K2 mu2 ∧ H3 K2 mu2 ≤ H3 K3 mu3) ∧ (H3 K0 mu0 ≤ H3 K1 mu1 ∧ H3 K1 mu1 ≤ H3 K1 mu1 ∧ H3 K2 mu2 ≤ H3 K1 mu1 ∧ H3 K3 mu3 ≤ H3 K1 mu1) := by
-  hs_selected Gen.HS3_n4_p2_path, h
-/-- Reuss ≤ HS⁻ ≤ HS⁺ ≤ Voigt for the bulk and the shear modulus returned on that path -/
-theorem HS3_n4_p2_ordered (f0 f1 f2 f3 K0 K1 K2 K3 mu0 mu1 mu2 mu3 : K) (h : Gen.HS3_n4_p2_path c c3 fn f0 f1 f2 f3 K0 K1 K2 K3 mu0 mu1 mu2 mu3)
-    (hf0 : 0 ≤ f0) (hf1 : 0 ≤ f1) (hf2 : 0 ≤ f2) (hf3 : 0 ≤ f3) (h1 : f0 + f1 + f2 + f3 = 1)
-    (hK0 : 0 < K0) (hK1 : 0 < K1) (hK2 : 0 < K2) (hK3 : 0 < K3) (hmu0 : 0 < mu0) (hmu1 : 0 < mu1) (hmu2 : 0 < mu2) (hmu3 : 0 < mu3) :
-    ∃ KL GL KU GU, Gen.HS3_n4_p2_all c c3 fn f0 f1 f2 f3 K0 K1 K2 K3 mu0 mu1 mu2 mu3 = [KL, GL, KU, GU] ∧
-      reuss ![f0, f1, f2, f3] ![K0, K1, K2, K3] ≤ KL ∧ KL ≤ KU ∧ KU ≤ voigt ![f0, f1, f2, f3] ![K0, K1, K2, K3] ∧
-      reuss ![f0, f1, f2, f3] ![mu0, mu1, mu2, mu3] ≤ GL ∧ GL ≤ GU ∧ GU ≤ voigt ![f0, f1, f2, f3] ![mu0, mu1, mu2, mu3] := by
-  obtain ⟨ha, hc, hb, hd⟩ := HS3_n4_p2_selected c c3 fn f0 f1 f2 f3 K0 K1 K2 K3 mu0 mu1 mu2 mu3 h
-  have hF := all_fin4 (P := fun x : K => 0 ≤ x) hf0 hf1 hf2 hf3
-  have hS : ∑ i, ![f0, f1, f2, f3] i = 1 := by rw [sum_fin4]; exact h1
-  have hKp := all_fin4 (P := fun x : K => 0 < x) hK0 hK1 hK2 hK3
-  have hMp := all_fin4 (P := fun x : K => 0 < x) hmu0 hmu1 hmu2 hmu3
-  obtain ⟨k1, k2, k3⟩ := bounds_chain ![f0, f1, f2, f3] ![K0, K1, K2, K3] hF hS hKp (s := Ks3 mu0) (t := Ks3 mu3) (Ks3_nonneg hmu0) (Ks3_mono (by hs_pick ha))
-  obtain ⟨g1, g2, g3⟩ := bounds_chain ![f0, f1, f2, f3] ![mu0, mu1, mu2, mu3] hF hS hMp (s := H3 K2 mu2) (t := H3 K1 mu1) (H3_pos hK2 hmu2).le (by hs_pick hb)
-  exact ⟨_, _, _, _, HS3_n4_p2_formula c c3 fn f0 f1 f2 f3 K0 K1 K2 K3 mu0 mu1 mu2 mu3, k1, k2, k3, g1, g2, g3⟩
-
-/-- `HS3_n4_p3` (dimension 3, 4 phases; trace in which phase 1 has the smallest and phase 2 the largest shear
-modulus, phase 1 the smallest and phase 2 the largest `H`): the four returned moduli are the
-Hashin–Shtrikman forms with these reference moduli. -/
-theorem HS3_n4_p3_formula (f0 f1 f2 f3 K0 K1 K2 K3 mu0 mu1 mu2 mu3 : K) :
-    Gen.HS3_n4_p3_all c c3 fn f0 f1 f2 f3 K0 K1 K2 K3 mu0 mu1 mu2 mu3 =
-      [hs ![f0, f1, f2, f3] ![K0, K1, K2, K3] (Ks3 mu1), hs ![f0, f1, f2, f3] ![mu0, mu1, mu2, mu3] (H3 K1 mu1),
-       hs ![f0, f1, f2, f3] ![K0, K1, K2, K3] (Ks3 mu2), hs ![f0, f1, f2, f3] ![mu0, mu1, mu2, mu3] (H3 K2 mu2)] := by
-  hs_formula Gen.HS3_n4_p3_all, hs_fin4
-/-- on that path the selected phases are indeed the extreme ones -/
-theorem HS3_n4_p3_selected (f0 f1 f2 f3 K0 K1 K2 K3 mu0 mu1 mu2 mu3 : K) (h : Gen.HS3_n4_p3_path c c3 fn f0 f1 f2 f3 K0 K1 K2 K3 mu0 mu1 mu2 mu3) :
-    (mu1 ≤ mu0 ∧ mu1 ≤ mu1 ∧ mu1 ≤ mu2 ∧ mu1 ≤ mu3) ∧ (mu0 ≤ mu2 ∧ mu1 ≤ mu2 ∧ mu2 ≤ mu2 ∧ mu3 ≤ mu2) ∧
-    (H3 K1 mu1 ≤ H3 K0 mu0 ∧ H3 K1 mu1 ≤ H3 K1 mu1 ∧ H3 K1 mu1 ≤ H3 K2 mu2 ∧ H3 K1 mu1 ≤ H3 K3 mu3) ∧ (H3 K0 mu0 ≤ H3 K2 mu2 ∧ H3 K1 mu1 ≤ H3 K2 mu2 ∧ H3 K2 mu2 ≤ H3 K2 mu2 ∧ H3 K3 mu3 ≤ H3 K2 mu2) := by
-  hs_selected Gen.HS3_n4_p3_path, h
-/-- Reuss ≤ HS⁻ ≤ HS⁺ ≤ Voigt for the bulk and the shear modulus returned on that path -/
-theorem HS3_n4_p3_ordered (f0 f1 f2 f3 K0 K1 K2 K3 mu0 mu1 mu2 mu3 : K) (h : Gen.HS3_n4_p3_path c c3 fn f0 f1 f2 f3 K0 K1 K2 K3 mu0 mu1 mu2 mu3)
-    (hf0 : 0 ≤ f0) (hf1 : 0 ≤ f1) (hf2 : 0 ≤ f2) (hf3 : 0 ≤ f3) (h1 : f0 + f1 + f2 + f3 = 1)
-    (hK0 : 0 < K0) (hK1 : 0 < K1) (hK2 : 0 < K2) (hK3 : 0 < K3) (hmu0 : 0 < mu0) (hmu1 : 0 < mu1) (hmu2 : 0 < mu2) (hmu3 : 0 < mu3) :
-    ∃ KL GL KU GU, Gen.HS3_n4_p3_all c c3 fn f0 f1 f2 f3 K0 K1 K2 K3 mu0 mu1 mu2 mu3 = [KL, GL, KU, GU] ∧
-      reuss ![f0, f1, f2, f3] ![K0, K1, K2, K3] ≤ KL ∧ KL ≤ KU ∧ KU ≤ voigt ![f0, f1, f2, f3] ![K0, K1, K2, K3] ∧
-      reuss ![f0, f1, f2, f3] ![mu0, mu1, mu2, mu3] ≤ GL ∧ GL ≤ GU ∧ GU ≤ voigt ![f0, f1, f2, f3] ![mu0, mu1, mu2, mu3] := by
-  obtain ⟨ha, hc, hb, hd⟩ := HS3_n4_p3_selected c c3 fn f0 f1 f2 f3 K0 K1 K2 K3 mu0 mu1 mu2 mu3 h
-  have hF := all_fin4 (P := fun x : K => 0 ≤ x) hf0 hf1 hf2 hf3
-  have hS : ∑ i, ![f0, f1, f2, f3] i = 1 := by rw [sum_fin4]; exact h1
-  have hKp := all_fin4 (P := fun x : K => 0 < x) hK0 hK1 hK2 hK3
-  have hMp := all_fin4 (P := fun x : K => 0 < x) hmu0 hmu1 hmu2 hmu3
-  obtain ⟨k1, k2, k3⟩ := bounds_chain ![f0, f1, f2, f3] ![K0, K1, K2, K3] hF hS hKp (s := Ks3 mu1) (t := Ks3 mu2) (Ks3_nonneg hmu1) (Ks3_mono (by hs_pick ha))
-  obtain ⟨g1, g2, g3⟩ := bounds_chain ![f0, f1, f2, f3] ![mu0, mu1, mu2, mu3] hF hS hMp (s := H3 K1 mu1) (t := H3 K2 mu2) (H3_pos hK1 hmu1).le (by hs_pick hb)
-  exact ⟨_, _, _, _, HS3_n4_p3_formula c c3 fn f0 f1 f2 f3 K0 K1 K2 K3 mu0 mu1 mu2 mu3, k1, k2, k3, g1, g2, g3⟩
-
-/-- `HS3_n5_p0` (dimension 3, 5 phases; trace in which phase 0 has the smallest and phase 4 the largest shear
-modulus, phase 0 the smallest and phase 4 the largest `H`): the four returned moduli are the
-Hashin–Shtrikman forms with these reference moduli. -/
-theorem HS3_n5_p0_formula (f0 f1 f2 f3 f4 K0 K1 K2 K3 K4 mu0 mu1 mu2 mu3 mu4 : K) :
-    Gen.HS3_n5_p0_all c c3 fn f0 f1 f2 f3 f4 K0 K1 K2 K3 K4 mu0 mu1 mu2 mu3 mu4 =
-      [hs ![f0, f1, f2, f3, f4] ![K0, K1, K2, K3, K4] (Ks3 mu0), hs ![f0, f1, f2, f3, f4] ![mu0, mu1, mu2, mu3, mu4] (H3 K0 mu0),
-       hs ![f0, f1, f2, f3, f4] ![K0, K1, K2, K3, K4] (Ks3 mu4), hs ![f0, f1, f2, f3, f4] ![mu0, mu1, mu2, mu3, mu4] (H3 K4 mu4)] := by
-  hs_formula Gen.HS3_n5_p0_all, hs_fin5
-/-- on that path the selected phases are indeed the extreme ones -/
-theorem HS3_n5_p0_selected (f0 f1 f2 f3 f4 K0 K1 K2 K3 K4 mu0 mu1 mu2 mu3 mu4 : K) (h : Gen.HS3_n5_p0_path c c3 fn f0 f1 f2 f3 f4 K0 K1 K2 K3 K4 mu0 mu1 mu2 mu3 mu4) :
-    (mu0 ≤ mu0 ∧ mu0 ≤ mu1 ∧ mu0 ≤ mu2 ∧ mu0 ≤ mu3 ∧ mu0 ≤ mu4) ∧ (mu0 ≤ mu4 ∧ mu1 ≤ mu4 ∧ mu2 ≤ mu4 ∧ mu3 ≤ mu4 ∧ mu4 ≤ mu4) ∧
-    (H3 K0 mu0 ≤ H3 K0 mu0 ∧ H3 K0 mu0 ≤ H3 K1 mu1 ∧ H3 K0 mu0 ≤ H3 K2 mu2 ∧ H3 K0 mu0 ≤ H3 K3 mu3 ∧ H3 K0 mu0 ≤ H3 K4 mu4) ∧ (H3 K0 mu0 ≤ H3 K4 mu4 ∧ H3 K1 mu1 ≤ H3 K4 mu4 ∧ H3 K2 mu2 ≤ H3 K4 mu4 ∧ H3 K3 mu3 ≤ H3 K4 mu4 ∧ H3 K4 mu4 ≤ H3 K4 mu4) := by
-  hs_selected Gen.HS3_n5_p0_path, h
-/-- Reuss ≤ HS⁻ ≤ HS⁺ ≤ Voigt for the bulk and the shear modulus returned on that path -/
-theorem HS3_n5_p0_ordered (f0 f1 f2 f3 f4 K0 K1 K2 K3 K4 mu0 mu1 mu2 mu3 mu4 : K) (h : Gen.HS3_n5_p0_path c c3 fn f0 f1 f2 f3 f4 K0 K1 K2 K3 K4 mu0 mu1 mu2 mu3 mu4)
-    (hf0 : 0 ≤ f0) (hf1 : 0 ≤ f1) (hf2 : 0 ≤ f2) (hf3 : 0 ≤ f3) (hf4 : 0 ≤ f4) (h1 : f0 + f1 + f2 + f3 + f4 = 1)
-    (hK0 : 0 < K0) (hK1 : 0 < K1) (hK2 : 0 < K2) (hK3 : 0 < K3) (hK4 : 0 < K4) (hmu0 : 0 < mu0) (hmu1 : 0 < mu1) (hmu2 : 0 < mu2) (hmu3 : 0 < mu3) (hmu4 : 0 < mu4) :
-    ∃ KL GL KU GU, Gen.HS3_n5_p0_all c c3 fn f0 f1 f2 f3 f4 K0 K1 K2 K3 K4 mu0 mu1 mu2 mu3 mu4 = [KL, GL, KU, GU] ∧
-      reuss ![f0, f1, f2, f3, f4] ![K0, K1, K2, K3, K4] ≤ KL ∧ KL ≤ KU ∧ KU ≤ voigt ![f0, f1, f2, f3, f4] ![K0, K1, K2, K3, K4] ∧
-      reuss ![f0, f1, f2, f3, f4] ![mu0, mu1, mu2, mu3, mu4] ≤ GL ∧ GL ≤ GU ∧ GU ≤ voigt ![f0, f1, f2, f3, f4] ![mu0, mu1, mu2, mu3, mu4] := by
-  obtain ⟨ha, hc, hb, hd⟩ := HS3_n5_p0_selected c c3 fn f0 f1 f2 f3 f4 K0 K1 K2 K3 K4 mu0 mu1 mu2 mu3 mu4 h
-  have hF := all_fin5 (P := fun x : K => 0 ≤ x) hf0 hf1 hf2 hf3 hf4
-  have hS : ∑ i, ![f0, f1, f2, f3, f4] i = 1 := by rw [sum_fin5]; exact h1
-  have hKp := all_fin5 (P := fun x : K => 0 < x) hK0 hK1 hK2 hK3 hK4
-  have hMp := all_fin5 (P := fun x : K => 0 < x) hmu0 hmu1 hmu2 hmu3 hmu4
-  obtain ⟨k1, k2, k3⟩ := bounds_chain ![f0, f1, f2, f3, f4] ![K0, K1, K2, K3, K4] hF hS hKp (s := Ks3 mu0) (t := Ks3 mu4) (Ks3_nonneg hmu0) (Ks3_mono (by hs_pick ha))
-  obtain ⟨g1, g2, g3⟩ := bounds_chain ![f0, f1, f2, f3, f4] ![mu0, mu1, mu2, mu3, mu4] hF hS hMp (s := H3 K0 mu0) (t := H3 K4 mu4) (H3_pos hK0 hmu0).le (by hs_pick hb)
-  exact ⟨_, _, _, _, HS3_n5_p0_formula c c3 fn f0 f1 f2 f3 f4 K0 K1 K2 K3 K4 mu0 mu1 mu2 mu3 mu4, k1, k2, k3, g1, g2, g3⟩
-
-/-- `HS3_n5_p1` (dimension 3, 5 phases; trace in which phase 4 has the smallest and phase 0 the largest shear
-modulus, phase 4 the smallest and phase 0 the largest `H`): the four returned moduli are the
-Hashin–Shtrikman forms with these reference moduli. -/
-theorem HS3_n5_p1_formula (f0 f1 f2 f3 f4 K0 K1 K2 K3 K4 mu0 mu1 mu2 mu3 mu4 : K) :
-    Gen.HS3_n5_p1_all c c3 fn f0 f1 f2 f3 f4 K0 K1 K2 K3 K4 mu0 mu1 mu2 mu3 mu4 =
-      [hs ![f0, f1, f2, f3, f4] ![K0, K1, K2, K3, K4] (Ks3 mu4), hs ![f0, f1, f2, f3, f4] ![mu0, mu1, mu2, mu3, mu4] (H3 K4 mu4),
-       hs ![f0, f1, f2, f3, f4] ![K0, K1, K2, K3, K4] (Ks3 mu0), hs ![f0, f1, f2, f3, f4] ![mu0, mu1, mu2, mu3, mu4] (H3 K0 mu0)] := by
-  hs_formula Gen.HS3_n5_p1_all, hs_fin5
-/-- on that path the selected phases are indeed the extreme ones -/
-theorem HS3_n5_p1_selected (f0 f1 f2 f3 f4 K0 K1 K2 K3 K4 mu0 mu1 mu2 mu3 mu4 : K) (h : Gen.HS3_n5_p1_path c c3 fn f0 f1 f2 f3 f4 K0 K1 K2 K3 K4 mu0 mu1 mu2 mu3 mu4) :
-    (mu4 ≤ mu0 ∧ mu4 ≤ mu1 ∧ mu4 ≤ mu2 ∧ mu4 ≤ mu3 ∧ mu4 ≤ mu4) ∧ (mu0 ≤ mu0 ∧ mu1 ≤ mu0 ∧ mu2 ≤ mu0 ∧ mu3 ≤ mu0 ∧ mu4 ≤ mu0) ∧
-    (H3 K4 mu4 ≤ H3 K0 mu0 ∧ H3 K4 mu4 ≤ H3 K1 mu1 ∧ H3 K4 mu4 ≤ H3 K2 mu2 ∧ H3 K4 mu4 ≤ H3 K3 mu3 ∧ H3 K4 mu4 ≤ H3 K4 mu4) ∧ (H3 K0 mu0 ≤ H3 K0 mu0 ∧ H3 K1 mu1 ≤ H3 K0 mu0 ∧ H3 K2 mu2 ≤ H3 K0 mu0 ∧ H3 K3 mu3 ≤ H3 K0 mu0 ∧ H3 K4 mu4 ≤ H3 K0 mu0) := by
-  hs_selected Gen.HS3_n5_p1_path, h
-/-- Reuss ≤ HS⁻ ≤ HS⁺ ≤ Voigt for the bulk and the shear modulus returned on that path -/
-theorem HS3_n5_p1_ordered (f0 f1 f2 f3 f4 K0 K1 K2 K3 K4 mu0 mu1 mu2 mu3 mu4 : K) (h : Gen.HS3_n5_p1_path c c3 fn f0 f1 f2 f3 f4 K0 K1 K2 K3 K4 mu0 mu1 mu2 mu3 mu4)
-    (hf0 : 0 ≤ f0) (hf1 : 0 ≤ f1) (hf2 : 0 ≤ f2) (hf3 : 0 ≤ f3) (hf4 : 0 ≤ f4) (h1 : f0 + f1 + f2 + f3 + f4 = 1)
-    (hK0 : 0 < K0) (hK1 : 0 < K1) (hK2 : 0 < K2) (hK3 : 0 < K3) (hK4 : 0 < K4) (hmu0 : 0 < mu0) (hmu1 : 0 < mu1) (hmu2 : 0 < mu2) (hmu3 : 0 < mu3) (hmu4 : 0 < mu4) :
-    ∃ KL GL KU GU, Gen.HS3_n5_p1_all c c3 fn f0 f1 f2 f3 f4 K0 K1 K2 K3 K4 mu0 mu1 mu2 mu3 mu4 = [KL, GL, KU, GU] ∧
-      reuss ![f0, f1, f2, f3, f4] ![K0, K1, K2, K3, K4] ≤ KL ∧ KL ≤ KU ∧ KU ≤ voigt ![f0, f1, f2, f3, f4] ![K0, K1, K2, K3, K4] ∧
-      reuss ![f0, f1, f2, f3, f4] ![mu0, mu1, mu2, mu3, mu4] ≤ GL ∧ GL ≤ GU ∧ GU ≤ voigt ![f0, f1, f2, f3, f4] ![mu0, mu1, mu2, mu3, mu4] := by
-  obtain ⟨ha, hc, hb, hd⟩ := HS3_n5_p1_selected c c3 fn f0 f1 f2 f3 f4 K0 K1 K2 K3 K4 mu0 mu1 mu2 mu3 mu4 h
-  have hF := all_fin5 (P := fun x : K => 0 ≤ x) hf0 hf1 hf2 hf3 hf4
-  have hS : ∑ i, ![f0, f1, f2, f3, f4] i = 1 := by rw [sum_fin5]; exact h1
-  have hKp := all_fin5 (P := fun x : K => 0 < x) hK0 hK1 hK2 hK3 hK4
-  have hMp := all_fin5 (P := fun x : K => 0 < x) hmu0 hmu1 hmu2 hmu3 hmu4
-  obtain ⟨k1, k2, k3⟩ := bounds_chain ![f0, f1, f2, f3, f4] ![K0, K1, K2, K3, K4] hF hS hKp (s := Ks3 mu4) (t := Ks3 mu0) (Ks3_nonneg hmu4) (Ks3_mono (by hs_pick ha))
-  obtain ⟨g1, g2, g3⟩ := bounds_chain ![f0, f1, f2, f3, f4] ![mu0, mu1, mu2, mu3, mu4] hF hS hMp (s := H3 K4 mu4) (t := H3 K0 mu0) (H3_pos hK4 hmu4).le (by hs_pick hb)
-  exact ⟨_, _, _, _, HS3_n5_p1_formula c c3 fn f0 f1 f2 f3 f4 K0 K1 K2 K3 K4 mu0 mu1 mu2 mu3 mu4, k1, k2, k3, g1, g2, g3⟩
-
-/-- `HS3_n5_p2` (dimension 3, 5 phases; trace in which phase 2 has the smallest and phase 1 the largest shear
-modulus, phase 2 the smallest and phase 1 the largest `H`): the four returned moduli are the
-Hashin–Shtrikman forms with these reference moduli. -/
-theorem HS3_n5_p2_formula (f0 f1 f2 f3 f4 K0 K1 K2 K3 K4 mu0 mu1 mu2 mu3 mu4 : K) :
-    Gen.HS3_n5_p2_all c c3 fn f0 f1 f2 f3 f4 K0 K1 K2 K3 K4 mu0 mu1 mu2 mu3 mu4 =
-      [hs ![f0, f1, f2, f3, f4] ![K0, K1, K2, K3, K4] (Ks3 mu2), hs ![f0, f1, f2, f3, f4] ![mu0, mu1, mu2, mu3, mu4] (H3 K2 mu2),
-       hs ![f0, f1, f2, f3, f4] ![K0, K1, K2, K3, K4] (Ks3 mu1), hs ![f0, f1, f2, f3, f4] ![mu0, mu1, mu2, mu3, mu4] (H3 K1 mu1)] := by
-  hs_formula Gen.HS3_n5_p2_all, hs_fin5
-/-- on that path the selected phases are indeed the extreme ones -/
-theorem HS3_n5_p2_selected (f0 f1 f2 f3 f4 K0 K1 K2 K3 K4 mu0 mu1 mu2 mu3 mu4 : K) (h : Gen.HS3_n5_p2_path c c3 fn f0 f1 f2 f3 f4 K0 K1 K2 K3 K4 mu0 mu1 mu2 mu3 mu4) :
-    (mu2 ≤ mu0 ∧ mu2 ≤ mu1 ∧ mu2 ≤ mu2 ∧ mu2 ≤ mu3 ∧ mu2 ≤ mu4) ∧ (mu0 ≤ mu1 ∧ mu1 ≤ mu1 ∧ mu2 ≤ mu1 ∧ mu3 ≤ mu1 ∧ mu4 ≤ mu1) ∧
-    (H3 K2 mu2 ≤ H3 K0 mu0 ∧ H3 K2 mu2 ≤ H3 K1 mu1 ∧ H3 K2 mu2 ≤ H3 K2 mu2 ∧ H3 K2 mu2 ≤ H3 K3 mu3 ∧ H3 K2 mu2 ≤ H3 K4 mu4) ∧ (H3 K0 mu0 ≤ H3 K1 mu1 ∧ H3 K1 mu1 ≤ H3 K1 mu1 ∧ H3 K2 mu2 ≤ H3 K1 mu1 ∧ H3 K3 mu3 ≤ H3 K1 mu1 ∧ H3 K4 mu4 ≤ H3 K1 mu1) := by
-  hs_selected Gen.HS3_n5_p2_path, h
-/-- Reuss ≤ HS⁻ ≤ HS⁺ ≤ Voigt for the bulk and the shear modulus returned on that path -/
-theorem HS3_n5_p2_ordered (f0 f1 f2 f3 f4 K0 K1 K2 K3 K4 mu0 mu1 mu2 mu3 mu4 : K) (h : Gen.HS3_n5_p2_path c c3 fn f0 f1 f2 f3 f4 K0 K1 K2 K3 K4 mu0 mu1 mu2 mu3 mu4)
-    (hf0 : 0 ≤ f0) (hf1 : 0 ≤ f1) (hf2 : 0 ≤ f2) (hf3 : 0 ≤ f3) (hf4 : 0 ≤ f4) (h1 : f0 + f1 + f2 + f3 + f4 = 1)
-    (hK0 : 0 < K0) (hK1 : 0 < K1) (hK2 : 0 < K2) (hK3 : 0 < K3) (hK4 : 0 < K4) (hmu0 : 0 < mu0) (hmu1 : 0 < mu1) (hmu2 : 0 < mu2) (hmu3 : 0 < mu3) (hmu4 : 0 < mu4) :
-    ∃ KL GL KU GU, Gen.HS3_n5_p2_all c c3 fn f0 f1 f2 f3 f4 K0 K1 K2 K3 K4 mu0 mu1 mu2 mu3 mu4 = [KL, GL, KU, GU] ∧
-      reuss ![f0, f1, f2, f3, f4] ![K0, K1, K2, K3, K4] ≤ KL ∧ KL ≤ KU ∧ KU ≤ voigt ![f0, f1, f2, f3, f4] ![K0, K1, K2, K3, K4] ∧
-      reuss ![f0, f1, f2, f3, f4] ![mu0, mu1, mu2, mu3, mu4] ≤ GL ∧ GL ≤ GU ∧ GU ≤ voigt ![f0, f1, f2, f3, f4] ![mu0, mu1, mu2, mu3, mu4] := by
-  obtain ⟨ha, hc, hb, hd⟩ := HS3_n5_p2_selected c c3 fn f0 f1 f2 f3 f4 K0 K1 K2 K3 K4 mu0 mu1 mu2 mu3 mu4 h
-  have hF := all_fin5 (P := fun x : K => 0 ≤ x) hf0 hf1 hf2 hf3 hf4
-  have hS : ∑ i, ![f0, f1, f2, f3, f4] i = 1 := by rw [sum_fin5]; exact h1
-  have hKp := all_fin5 (P := fun x : K => 0 < x) hK0 hK1 hK2 hK3 hK4
-  have hMp := all_fin5 (P := fun x : K => 0 < x) hmu0 hmu1 hmu2 hmu3 hmu4
-  obtain ⟨k1, k2, k3⟩ := bounds_chain ![f0, f1, f2, f3, f4] ![K0, K1, K2, K3, K4] hF hS hKp (s := Ks3 mu2) (t := Ks3 mu1) (Ks3_nonneg hmu2) (Ks3_mono (by hs_pick ha))
-  obtain ⟨g1, g2, g3⟩ := bounds_chain ![f0, f1, f2, f3, f4] ![mu0, mu1, mu2, mu3, mu4] hF hS hMp (s := H3 K2 mu2) (t := H3 K1 mu1) (H3_pos hK2 hmu2).le (by hs_pick hb)
-  exact ⟨_, _, _, _, HS3_n5_p2_formula c c3 fn f0 f1 f2 f3 f4 K0 K1 K2 K3 K4 mu0 mu1 mu2 mu3 mu4, k1, k2, k3, g1, g2, g3⟩
-
-/-- `HS2_n2_p0` (dimension 2, 2 phases; trace in which phase 0 has the smallest and phase 1 the largest shear
-modulus, phase 0 the smallest and phase 1 the largest `H`): the four returned moduli are the
-Hashin–Shtrikman forms with these reference moduli. -/
-theorem HS2_n2_p0_formula (f0 f1 K0 K1 mu0 mu1 : K) :
-    Gen.HS2_n2_p0_all c c3 fn f0 f1 K0 K1 mu0 mu1 =
-      [hs ![f0, f1] ![K0, K1] (Ks2 mu0), hs ![f0, f1] ![mu0, mu1] (H2 K0 mu0),
-       hs ![f0, f1] ![K0, K1] (Ks2 mu1), hs ![f0, f1] ![mu0, mu1] (H2 K1 mu1)] := by
-  hs_formula Gen.HS2_n2_p0_all, hs_fin2
-/-- on that path the selected phases are indeed the extreme ones -/
-theorem HS2_n2_p0_selected (f0 f1 K0 K1 mu0 mu1 : K) (h : Gen.HS2_n2_p0_path c c3 fn f0 f1 K0 K1 mu0 mu1) :
-    (mu0 ≤ mu0 ∧ mu0 ≤ mu1) ∧ (mu0 ≤ mu1 ∧ mu1 ≤ mu1) ∧
-    (H2 K0 mu0 ≤ H2 K0 mu0 ∧ H2 K0 mu0 ≤ H2 K1 mu1) ∧ (H2 K0 mu0 ≤ H2 K1 mu1 ∧ H2 K1 mu1 ≤ H2 K1 mu1) := by
-  hs_selected Gen.HS2_n2_p0_path, h
-/-- Reuss ≤ HS⁻ ≤ HS⁺ ≤ Voigt for the bulk and the shear modulus returned on that path -/
-theorem HS2_n2_p0_ordered (f0 f1 K0 K1 mu0 mu1 : K) (h : Gen.HS2_n2_p0_path c c3 fn f0 f1 K0 K1 mu0 mu1)
-    (hf0 : 0 ≤ f0) (hf1 : 0 ≤ f1) (h1 : f0 + f1 = 1)
-    (hK0 : 0 < K0) (hK1 : 0 < K1) (hmu0 : 0 < mu0) (hmu1 : 0 < mu1) :
-    ∃ KL GL KU GU, Gen.HS2_n2_p0_all c c3 fn f0 f1 K0 K1 mu0 mu1 = [KL, GL, KU, GU] ∧
-      reuss ![f0, f1] ![K0, K1] ≤ KL ∧ KL ≤ KU ∧ KU ≤ voigt ![f0, f1] ![K0, K1] ∧
-      reuss ![f0, f1] ![mu0, mu1] ≤ GL ∧ GL ≤ GU ∧ GU ≤ voigt ![f0, f1] ![mu0, mu1] := by
-  obtain ⟨ha, hc, hb, hd⟩ := HS2_n2_p0_selected c c3 fn f0 f1 K0 K1 mu0 mu1 h
-  have hF := all_fin2 (P := fun x : K => 0 ≤ x) hf0 hf1
-  have hS : ∑ i, ![f0, f1] i = 1 := by rw [sum_fin2]; exact h1
-  have hKp := all_fin2 (P := fun x : K => 0 < x) hK0 hK1
-  have hMp := all_fin2 (P := fun x : K => 0 < x) hmu0 hmu1
-  obtain ⟨k1, k2, k3⟩ := bounds_chain ![f0, f1] ![K0, K1] hF hS hKp (s := Ks2 mu0) (t := Ks2 mu1) (Ks2_nonneg hmu0) (Ks2_mono (by hs_pick ha))
-  obtain ⟨g1, g2, g3⟩ := bounds_chain ![f0, f1] ![mu0, mu1] hF hS hMp (s := H2 K0 mu0) (t := H2 K1 mu1) (H2_pos hK0 hmu0).le (by hs_pick hb)
-  exact ⟨_, _, _, _, HS2_n2_p0_formula c c3 fn f0 f1 K0 K1 mu0 mu1, k1, k2, k3, g1, g2, g3⟩
-
-/-- `HS2_n2_p1` (dimension 2, 2 phases; trace in which phase 1 has the smallest and phase 0 the largest shear
-modulus, phase 1 the smallest and phase 0 the largest `H`): the four returned moduli are the
-Hashin–Shtrikman forms with these reference moduli. -/
-theorem HS2_n2_p1_formula (f0 f1 K0 K1 mu0 mu1 : K) :
-    Gen.HS2_n2_p1_all c c3 fn f0 f1 K0 K1 mu0 mu1 =
-      [hs ![f0, f1] ![K0, K1] (Ks2 mu1), hs ![f0, f1] ![mu0, mu1] (H2 K1 mu1),
-       hs ![f0, f1] ![K0, K1] (Ks2 mu0), hs ![f0, f1] ![mu0, mu1] (H2 K0 mu0)] := by
-  hs_formula Gen.HS2_n2_p1_all, hs_fin2
-/-- on that path the selected phases are indeed the extreme ones -/
-theorem HS2_n2_p1_selected (f0 f1 K0 K1 mu0 mu1 : K) (h : Gen.HS2_n2_p1_path c c3 fn f0 f1 K0 K1 mu0 mu1) :
-    (mu1 ≤ mu0 ∧ mu1 ≤ mu1) ∧ (mu0 ≤ mu0 ∧ mu1 ≤ mu0) ∧
-    (H2 K1 mu1 ≤ H2 K0 mu0 ∧ H2 K1 mu1 ≤ H2 K1 mu1) ∧ (H2 K0 mu0 ≤ H2 K0 mu0 ∧ H2 K1 mu1 ≤ H2 K0 mu0) := by
-  hs_selected Gen.HS2_n2_p1_path, h
-/-- Reuss ≤ HS⁻ ≤ HS⁺ ≤ Voigt for the bulk and the shear modulus returned on that path -/
-theorem HS2_n2_p1_ordered (f0 f1 K0 K1 mu0 mu1 : K) (h : Gen.HS2_n2_p1_path c c3 fn f0 f1 K0 K1 mu0 mu1)
-    (hf0 : 0 ≤ f0) (hf1 : 0 ≤ f1) (h1 : f0 + f1 = 1)
-    (hK0 : 0 < K0) (hK1 : 0 < K1) (hmu0 : 0 < mu0) (hmu1 : 0 < mu1) :
-    ∃ KL GL KU GU, Gen.HS2_n2_p1_all c c3 fn f0 f1 K0 K1 mu0 mu1 = [KL, GL, KU, GU] ∧
-      reuss ![f0, f1] ![K0, K1] ≤ KL ∧ KL ≤ KU ∧ KU ≤ voigt ![f0, f1] ![K0, K1] ∧
-      reuss ![f0, f1] ![mu0, mu1] ≤ GL ∧ GL ≤ GU ∧ GU ≤ voigt ![f0, f1] ![mu0, mu1] := by
-  obtain ⟨ha, hc, hb, hd⟩ := HS2_n2_p1_selected c c3 fn f0 f1 K0 K1 mu0 mu1 h
-  have hF := all_fin2 (P := fun x : K => 0 ≤ x) hf0 hf1
-  have hS : ∑ i, ![f0, f1] i = 1 := by rw [sum_fin2]; exact h1
-  have hKp := all_fin2 (P := fun x : K => 0 < x) hK0 hK1
-  have hMp := all_fin2 (P := fun x : K => 0 < x) hmu0 hmu1
-  obtain ⟨k1, k2, k3⟩ := bounds_chain ![f0, f1] ![K0, K1] hF hS hKp (s := Ks2 mu1) (t := Ks2 mu0) (Ks2_nonneg hmu1) (Ks2_mono (by hs_pick ha))
-  obtain ⟨g1, g2, g3⟩ := bounds_chain ![f0, f1] ![mu0, mu1] hF hS hMp (s := H2 K1 mu1) (t := H2 K0 mu0) (H2_pos hK1 hmu1).le (by hs_pick hb)
-  exact ⟨_, _, _, _, HS2_n2_p1_formula c c3 fn f0 f1 K0 K1 mu0 mu1, k1, k2, k3, g1, g2, g3⟩
-
-/-- `HS2_n3_p0` (dimension 2, 3 phases; trace in which phase 1 has the smallest and phase 2 the largest shear
-modulus, phase 0 the smallest and phase 2 the largest `H`): the four returned moduli are the
-Hashin–Shtrikman forms with these reference moduli. -/
-theorem HS2_n3_p0_formula (f0 f1 f2 K0 K1 K2 mu0 mu1 mu2 : K) :
-    Gen.HS2_n3_p0_all c c3 fn f0 f1 f2 K0 K1 K2 mu0 mu1 mu2 =
-      [hs ![f0, f1, f2] ![K0, K1, K2] (Ks2 mu1), hs ![f0, f1, f2] ![mu0, mu1, mu2] (H2 K0 mu0),
-       hs ![f0, f1, f2] ![K0, K1, K2] (Ks2 mu2), hs ![f0, f1, f2] ![mu0, mu1, mu2] (H2 K2 mu2)] := by
-  hs_formula Gen.HS2_n3_p0_all, hs_fin3
-/-- on that path the selected phases are indeed the extreme ones -/
-theorem HS2_n3_p0_selected (f0 f1 f2 K0 K1 K2 mu0 mu1 mu2 : K) (h : Gen.HS2_n3_p0_path c c3 fn f0 f1 f2 K0 K1 K2 mu0 mu1 mu2) :
-    (mu1 ≤ mu0 ∧ mu1 ≤ mu1 ∧ mu1 ≤ mu2) ∧ (mu0 ≤ mu2 ∧ mu1 ≤ mu2 ∧ mu2 ≤ mu2) ∧
-    (H2 K0 mu0 ≤ H2 K0 mu0 ∧ H2 K0 mu0 ≤ H2 K1 mu1 ∧ H2 K0 mu0 ≤ H2 K2 mu2) ∧ (H2 K0 mu0 ≤ H2 K2 mu2 ∧ H2 K1 mu1 ≤ H2 K2 mu2 ∧ H2 K2 mu2 ≤ H2 K2 mu2) := by
-  hs_selected Gen.HS2_n3_p0_path, h
-/-- Reuss ≤ HS⁻ ≤ HS⁺ ≤ Voigt for the bulk and the shear modulus returned on that path -/
-theorem HS2_n3_p0_ordered (f0 f1 f2 K0 K1 K2 mu0 mu1 mu2 : K) (h : Gen.HS2_n3_p0_path c c3 fn f0 f1 f2 K0 K1 K2 mu0 mu1 mu2)
-    (hf0 : 0 ≤ f0) (hf1 : 0 ≤ f1) (hf2 : 0 ≤ f2) (h1 : f0 + f1 + f2 = 1)
-    (hK0 : 0 < K0) (hK1 : 0 < K1) (hK2 : 0 < K2) (hmu0 : 0 < mu0) (hmu1 : 0 < mu1) (hmu2 : 0 < mu2) :
-    ∃ KL GL KU GU, Gen.HS2_n3_p0_all c c3 fn f0 f1 f2 K0 K1 K2 mu0 mu1 mu2 = [KL, GL, KU, GU] ∧
-      reuss ![f0, f1, f2] ![K0, K1, K2] ≤ KL ∧ KL ≤ KU ∧ KU ≤ voigt ![f0, f1, f2] ![K0, K1, K2] ∧
-      reuss ![f0, f1, f2] ![mu0, mu1, mu2] ≤ GL ∧ GL ≤ GU ∧ GU ≤ voigt ![f0, f1, f2] ![mu0, mu1, mu2] := by
-  obtain ⟨ha, hc, hb, hd⟩ := HS2_n3_p0_selected c c3 fn f0 f1 f2 K0 K1 K2 mu0 mu1 mu2 h
-  have hF := all_fin3 (P := fun x : K => 0 ≤ x) hf0 hf1 hf2
-  have hS : ∑ i, ![f0, f1, f2] i = 1 := by rw [sum_fin3]; exact h1
-  have hKp := all_fin3 (P := fun x : K => 0 < x) hK0 hK1 hK2
-  have hMp := all_fin3 (P := fun x : K => 0 < x) hmu0 hmu1 hmu2
-  obtain ⟨k1, k2, k3⟩ := bounds_chain ![f0, f1, f2] ![K0, K1, K2] hF hS hKp (s := Ks2 mu1) (t := Ks2 mu2) (Ks2_nonneg hmu1) (Ks2_mono (by hs_pick ha))
-  obtain ⟨g1, g2, g3⟩ := bounds_chain ![f0, f1, f2] ![mu0, mu1, mu2] hF hS hMp (s := H2 K0 mu0) (t := H2 K2 mu2) (H2_pos hK0 hmu0).le (by hs_pick hb)
-  exact ⟨_, _, _, _, HS2_n3_p0_formula c c3 fn f0 f1 f2 K0 K1 K2 mu0 mu1 mu2, k1, k2, k3, g1, g2, g3⟩
+/-! ## non-vacuity of the hypotheses used above -/
+example : ∃ K0 G0 K1 G1 f : ℚ, 0 < K0 ∧ 0 < G0 ∧ 0 < K1 ∧ 0 < G1 ∧ 0 ≤ f ∧ f ≤ 1 ∧
+    0 < K0 + f * (K1 - K0) * sphAk K0 G0 K1 ∧ 0 < G0 + f * (G1 - G0) * sphAg K0 G0 G1 :=
+  ⟨2, 1, 5, 3, 1/4, by norm_num, by norm_num, by norm_num, by norm_num, by norm_num, by norm_num,
+   by norm_num [sphAk, Ks3], by norm_num [sphAg, H3]⟩
+/-- the path condition of a Hashin–Shtrikman trace is satisfiable (here: the shadow inputs of `HS3_n3_p3`) -/
+example : Gen.HS3_n3_p3_path (K := ℚ) 0 0 ⟨id, id, id, id, id, id, id, id, id, id, id, id, id, id, id,
+    fun x _ => x, fun x _ => x, fun x _ => x, fun x _ => x, fun _ _ => 0⟩ (1/2) (1/4) (1/4) 1 5 2 2 1 3 := by
+  simp only [Gen.HS3_n3_p3_path]; norm_num
 end TfelVerif.C25.Props
